@@ -214,6 +214,13 @@ module Coq_Pos =
   | XO p -> XI (pred_double p)
   | XH -> XH
 
+  (** val pred_N : positive -> n **)
+
+  let pred_N = function
+  | XI p -> Npos (XO p)
+  | XO p -> Npos (pred_double p)
+  | XH -> N0
+
   type mask = Pos.mask =
   | IsNul
   | IsPos of positive
@@ -287,6 +294,11 @@ module Coq_Pos =
   | XI n' -> f (iter f (iter f x n') n')
   | XO n' -> iter f (iter f x n') n'
   | XH -> f x
+
+  (** val pow : positive -> positive -> positive **)
+
+  let pow x =
+    iter (mul x) XH
 
   (** val compare_cont : comparison -> positive -> positive -> comparison **)
 
@@ -399,6 +411,20 @@ module Coq_Pos =
   | N0 -> p
   | Npos n1 -> iter (fun x -> XO x) p n1
 
+  (** val testbit : positive -> n -> bool **)
+
+  let rec testbit p n0 =
+    match p with
+    | XI p0 -> (match n0 with
+                | N0 -> true
+                | Npos n1 -> testbit p0 (pred_N n1))
+    | XO p0 -> (match n0 with
+                | N0 -> false
+                | Npos n1 -> testbit p0 (pred_N n1))
+    | XH -> (match n0 with
+             | N0 -> true
+             | Npos _ -> false)
+
   (** val iter_op : ('a1 -> 'a1 -> 'a1) -> positive -> 'a1 -> 'a1 **)
 
   let rec iter_op op0 p a =
@@ -502,6 +528,14 @@ module N =
                 | XO p -> Npos p
                 | XH -> N0)
 
+  (** val pow : n -> n -> n **)
+
+  let pow n0 = function
+  | N0 -> Npos XH
+  | Npos p0 -> (match n0 with
+                | N0 -> N0
+                | Npos q -> Npos (Coq_Pos.pow q p0))
+
   (** val pos_div_eucl : positive -> n -> n * n **)
 
   let rec pos_div_eucl a b =
@@ -580,6 +614,13 @@ module N =
   | N0 -> a
   | Npos p -> Coq_Pos.iter div2 a p
 
+  (** val testbit : n -> n -> bool **)
+
+  let testbit a n0 =
+    match a with
+    | N0 -> false
+    | Npos p -> Coq_Pos.testbit p n0
+
   (** val to_nat : n -> nat **)
 
   let to_nat = function
@@ -613,6 +654,12 @@ let rec nth_error l = function
 | S n1 -> (match l with
            | [] -> None
            | _ :: l0 -> nth_error l0 n1)
+
+(** val rev : 'a1 list -> 'a1 list **)
+
+let rec rev = function
+| [] -> []
+| x :: l' -> app (rev l') (x :: [])
 
 (** val map : ('a1 -> 'a2) -> 'a1 list -> 'a2 list **)
 
@@ -1189,6 +1236,145 @@ let g_Attributes_encodeTo =
     EmptyString)))))))))))))))))))))))))))))))))))))); gop = OpGT; glit =
     (Zpos (XI (XO (XI (XI (XI (XI (XI XH)))))))) } :: []))
 
+(** val g_Date : guard list **)
+
+let g_Date =
+  { gexpr = (String ((Ascii (false, false, true, true, false, true, true,
+    false)), (String ((Ascii (true, false, true, false, false, true, true,
+    false)), (String ((Ascii (false, true, true, true, false, true, true,
+    false)), (String ((Ascii (false, false, false, true, false, true, false,
+    false)), (String ((Ascii (true, false, false, false, false, true, true,
+    false)), (String ((Ascii (true, false, false, true, false, true, false,
+    false)), EmptyString)))))))))))); gop = OpNE; glit = (Zpos (XO (XO
+    XH))) } :: []
+
+(** val g_IFID : guard list **)
+
+let g_IFID =
+  { gexpr = (String ((Ascii (false, false, true, true, false, true, true,
+    false)), (String ((Ascii (true, false, true, false, false, true, true,
+    false)), (String ((Ascii (false, true, true, true, false, true, true,
+    false)), (String ((Ascii (false, false, false, true, false, true, false,
+    false)), (String ((Ascii (true, false, false, false, false, true, true,
+    false)), (String ((Ascii (true, false, false, true, false, true, false,
+    false)), EmptyString)))))))))))); gop = OpNE; glit = (Zpos (XO (XO (XO
+    XH)))) } :: []
+
+(** val g_IPAddr : guard list **)
+
+let g_IPAddr =
+  { gexpr = (String ((Ascii (false, false, true, true, false, true, true,
+    false)), (String ((Ascii (true, false, true, false, false, true, true,
+    false)), (String ((Ascii (false, true, true, true, false, true, true,
+    false)), (String ((Ascii (false, false, false, true, false, true, false,
+    false)), (String ((Ascii (true, false, false, false, false, true, true,
+    false)), (String ((Ascii (true, false, false, true, false, true, false,
+    false)), EmptyString)))))))))))); gop = OpNE; glit = (Zpos (XO (XO
+    XH))) } :: []
+
+(** val g_IPv6Addr : guard list **)
+
+let g_IPv6Addr =
+  { gexpr = (String ((Ascii (false, false, true, true, false, true, true,
+    false)), (String ((Ascii (true, false, true, false, false, true, true,
+    false)), (String ((Ascii (false, true, true, true, false, true, true,
+    false)), (String ((Ascii (false, false, false, true, false, true, false,
+    false)), (String ((Ascii (true, false, false, false, false, true, true,
+    false)), (String ((Ascii (true, false, false, true, false, true, false,
+    false)), EmptyString)))))))))))); gop = OpNE; glit = (Zpos (XO (XO (XO
+    (XO XH))))) } :: []
+
+(** val g_IPv6Prefix : guard list **)
+
+let g_IPv6Prefix =
+  { gexpr = (String ((Ascii (false, false, true, true, false, true, true,
+    false)), (String ((Ascii (true, false, true, false, false, true, true,
+    false)), (String ((Ascii (false, true, true, true, false, true, true,
+    false)), (String ((Ascii (false, false, false, true, false, true, false,
+    false)), (String ((Ascii (true, false, false, false, false, true, true,
+    false)), (String ((Ascii (true, false, false, true, false, true, false,
+    false)), EmptyString)))))))))))); gop = OpLT; glit = (Zpos (XO
+    XH)) } :: ({ gexpr = (String ((Ascii (false, false, true, true, false,
+    true, true, false)), (String ((Ascii (true, false, true, false, false,
+    true, true, false)), (String ((Ascii (false, true, true, true, false,
+    true, true, false)), (String ((Ascii (false, false, false, true, false,
+    true, false, false)), (String ((Ascii (true, false, false, false, false,
+    true, true, false)), (String ((Ascii (true, false, false, true, false,
+    true, false, false)), EmptyString)))))))))))); gop = OpGT; glit = (Zpos
+    (XO (XI (XO (XO XH))))) } :: ({ gexpr = (String ((Ascii (false, false,
+    false, false, true, true, true, false)), (String ((Ascii (false, true,
+    false, false, true, true, true, false)), (String ((Ascii (true, false,
+    true, false, false, true, true, false)), (String ((Ascii (false, true,
+    true, false, false, true, true, false)), (String ((Ascii (true, false,
+    false, true, false, true, true, false)), (String ((Ascii (false, false,
+    false, true, true, true, true, false)), (String ((Ascii (false, false,
+    true, true, false, false, true, false)), (String ((Ascii (true, false,
+    true, false, false, true, true, false)), (String ((Ascii (false, true,
+    true, true, false, true, true, false)), (String ((Ascii (true, true,
+    true, false, false, true, true, false)), (String ((Ascii (false, false,
+    true, false, true, true, true, false)), (String ((Ascii (false, false,
+    false, true, false, true, true, false)),
+    EmptyString)))))))))))))))))))))))); gop = OpGT; glit = (Zpos (XO (XO (XO
+    (XO (XO (XO (XO XH)))))))) } :: ({ gexpr = (String ((Ascii (false, true,
+    false, false, false, true, true, false)), (String ((Ascii (true, false,
+    false, true, false, true, true, false)), (String ((Ascii (false, false,
+    true, false, true, true, true, false)), EmptyString)))))); gop = OpLT;
+    glit = (Zpos (XO (XO (XO XH)))) } :: ({ gexpr = (String ((Ascii (true,
+    false, false, true, false, true, true, false)), (String ((Ascii (false,
+    false, false, false, true, true, true, false)), (String ((Ascii (true,
+    true, false, true, true, false, true, false)), (String ((Ascii (true,
+    true, true, true, false, true, true, false)), (String ((Ascii (true,
+    true, false, false, false, true, true, false)), (String ((Ascii (false,
+    false, true, false, true, true, true, false)), (String ((Ascii (true,
+    false, true, false, false, true, true, false)), (String ((Ascii (false,
+    false, true, false, true, true, true, false)), (String ((Ascii (true,
+    false, true, true, true, false, true, false)), (String ((Ascii (false,
+    false, false, false, false, true, false, false)), (String ((Ascii (false,
+    true, true, false, false, true, false, false)), (String ((Ascii (false,
+    false, false, false, false, true, false, false)), (String ((Ascii (false,
+    false, false, true, false, true, false, false)), (String ((Ascii (true,
+    false, false, false, true, true, false, false)), (String ((Ascii (false,
+    false, false, false, false, true, false, false)), (String ((Ascii (false,
+    false, true, true, true, true, false, false)), (String ((Ascii (false,
+    false, true, true, true, true, false, false)), (String ((Ascii (false,
+    false, false, false, false, true, false, false)), (String ((Ascii (false,
+    false, false, true, false, true, false, false)), (String ((Ascii (true,
+    true, true, false, true, true, false, false)), (String ((Ascii (false,
+    false, false, false, false, true, false, false)), (String ((Ascii (true,
+    false, true, true, false, true, false, false)), (String ((Ascii (false,
+    false, false, false, false, true, false, false)), (String ((Ascii (false,
+    true, false, false, false, true, true, false)), (String ((Ascii (true,
+    false, false, true, false, true, true, false)), (String ((Ascii (false,
+    false, true, false, true, true, true, false)), (String ((Ascii (true,
+    false, false, true, false, true, false, false)), (String ((Ascii (true,
+    false, false, true, false, true, false, false)),
+    EmptyString))))))))))))))))))))))))))))))))))))))))))))))))))))))));
+    gop = OpNE; glit = Z0 } :: []))))
+
+(** val g_Integer : guard list **)
+
+let g_Integer =
+  { gexpr = (String ((Ascii (false, false, true, true, false, true, true,
+    false)), (String ((Ascii (true, false, true, false, false, true, true,
+    false)), (String ((Ascii (false, true, true, true, false, true, true,
+    false)), (String ((Ascii (false, false, false, true, false, true, false,
+    false)), (String ((Ascii (true, false, false, false, false, true, true,
+    false)), (String ((Ascii (true, false, false, true, false, true, false,
+    false)), EmptyString)))))))))))); gop = OpNE; glit = (Zpos (XO (XO
+    XH))) } :: []
+
+(** val g_Integer64 : guard list **)
+
+let g_Integer64 =
+  { gexpr = (String ((Ascii (false, false, true, true, false, true, true,
+    false)), (String ((Ascii (true, false, true, false, false, true, true,
+    false)), (String ((Ascii (false, true, true, true, false, true, true,
+    false)), (String ((Ascii (false, false, false, true, false, true, false,
+    false)), (String ((Ascii (true, false, false, false, false, true, true,
+    false)), (String ((Ascii (true, false, false, true, false, true, false,
+    false)), EmptyString)))))))))))); gop = OpNE; glit = (Zpos (XO (XO (XO
+    XH)))) } :: []
+
 (** val g_IsAuthenticRequest : guard list **)
 
 let g_IsAuthenticRequest =
@@ -1270,6 +1456,123 @@ let g_IsAuthenticResponse =
     true, true, true, false)), (String ((Ascii (true, false, false, true,
     false, true, false, false)), EmptyString)))))))))))))))))))))); gop =
     OpEQ; glit = Z0 } :: []))
+
+(** val g_NewBytes : guard list **)
+
+let g_NewBytes =
+  { gexpr = (String ((Ascii (false, false, true, true, false, true, true,
+    false)), (String ((Ascii (true, false, true, false, false, true, true,
+    false)), (String ((Ascii (false, true, true, true, false, true, true,
+    false)), (String ((Ascii (false, false, false, true, false, true, false,
+    false)), (String ((Ascii (false, true, false, false, false, true, true,
+    false)), (String ((Ascii (true, false, false, true, false, true, false,
+    false)), EmptyString)))))))))))); gop = OpGT; glit = (Zpos (XI (XO (XI
+    (XI (XI (XI (XI XH)))))))) } :: []
+
+(** val g_NewDate : guard list **)
+
+let g_NewDate =
+  { gexpr = (String ((Ascii (true, false, true, false, true, true, true,
+    false)), (String ((Ascii (false, true, true, true, false, true, true,
+    false)), (String ((Ascii (true, false, false, true, false, true, true,
+    false)), (String ((Ascii (false, false, false, true, true, true, true,
+    false)), EmptyString)))))))); gop = OpLT; glit = Z0 } :: ({ gexpr =
+    (String ((Ascii (true, false, true, false, true, true, true, false)),
+    (String ((Ascii (false, true, true, true, false, true, true, false)),
+    (String ((Ascii (true, false, false, true, false, true, true, false)),
+    (String ((Ascii (false, false, false, true, true, true, true, false)),
+    EmptyString)))))))); gop = OpGT; glit = (Zpos (XI (XI (XI (XI (XI (XI (XI
+    (XI (XI (XI (XI (XI (XI (XI (XI (XI (XI (XI (XI (XI (XI (XI (XI (XI (XI
+    (XI (XI (XI (XI (XI (XI XH)))))))))))))))))))))))))))))))) } :: [])
+
+(** val g_NewIFID : guard list **)
+
+let g_NewIFID =
+  { gexpr = (String ((Ascii (false, false, true, true, false, true, true,
+    false)), (String ((Ascii (true, false, true, false, false, true, true,
+    false)), (String ((Ascii (false, true, true, true, false, true, true,
+    false)), (String ((Ascii (false, false, false, true, false, true, false,
+    false)), (String ((Ascii (true, false, false, false, false, true, true,
+    false)), (String ((Ascii (false, false, true, false, false, true, true,
+    false)), (String ((Ascii (false, false, true, false, false, true, true,
+    false)), (String ((Ascii (false, true, false, false, true, true, true,
+    false)), (String ((Ascii (true, false, false, true, false, true, false,
+    false)), EmptyString)))))))))))))))))); gop = OpNE; glit = (Zpos (XO (XO
+    (XO XH)))) } :: []
+
+(** val g_NewIPv6Prefix : guard list **)
+
+let g_NewIPv6Prefix =
+  { gexpr = (String ((Ascii (false, false, true, true, false, true, true,
+    false)), (String ((Ascii (true, false, true, false, false, true, true,
+    false)), (String ((Ascii (false, true, true, true, false, true, true,
+    false)), (String ((Ascii (false, false, false, true, false, true, false,
+    false)), (String ((Ascii (false, false, false, false, true, true, true,
+    false)), (String ((Ascii (false, true, false, false, true, true, true,
+    false)), (String ((Ascii (true, false, true, false, false, true, true,
+    false)), (String ((Ascii (false, true, true, false, false, true, true,
+    false)), (String ((Ascii (true, false, false, true, false, true, true,
+    false)), (String ((Ascii (false, false, false, true, true, true, true,
+    false)), (String ((Ascii (false, true, true, true, false, true, false,
+    false)), (String ((Ascii (true, false, false, true, false, false, true,
+    false)), (String ((Ascii (false, false, false, false, true, false, true,
+    false)), (String ((Ascii (true, false, false, true, false, true, false,
+    false)), EmptyString)))))))))))))))))))))))))))); gop = OpNE; glit =
+    (Zpos (XO (XO (XO (XO XH))))) } :: ({ gexpr = (String ((Ascii (false,
+    true, false, false, false, true, true, false)), (String ((Ascii (true,
+    false, false, true, false, true, true, false)), (String ((Ascii (false,
+    false, true, false, true, true, true, false)), (String ((Ascii (true,
+    true, false, false, true, true, true, false)), EmptyString)))))))); gop =
+    OpNE; glit = (Zpos (XO (XO (XO (XO (XO (XO (XO XH)))))))) } :: ({ gexpr =
+    (String ((Ascii (true, false, false, true, false, true, true, false)),
+    EmptyString)); gop = OpNE; glit = Z0 } :: ({ gexpr = (String ((Ascii
+    (true, false, false, true, false, true, true, false)), EmptyString));
+    gop = OpLT; glit = (Zpos (XO (XO (XO XH)))) } :: [])))
+
+(** val g_NewString : guard list **)
+
+let g_NewString =
+  { gexpr = (String ((Ascii (false, false, true, true, false, true, true,
+    false)), (String ((Ascii (true, false, true, false, false, true, true,
+    false)), (String ((Ascii (false, true, true, true, false, true, true,
+    false)), (String ((Ascii (false, false, false, true, false, true, false,
+    false)), (String ((Ascii (true, true, false, false, true, true, true,
+    false)), (String ((Ascii (true, false, false, true, false, true, false,
+    false)), EmptyString)))))))))))); gop = OpGT; glit = (Zpos (XI (XO (XI
+    (XI (XI (XI (XI XH)))))))) } :: []
+
+(** val g_NewTLV : guard list **)
+
+let g_NewTLV =
+  { gexpr = (String ((Ascii (false, false, true, true, false, true, true,
+    false)), (String ((Ascii (true, false, true, false, false, true, true,
+    false)), (String ((Ascii (false, true, true, true, false, true, true,
+    false)), (String ((Ascii (false, false, false, true, false, true, false,
+    false)), (String ((Ascii (false, false, true, false, true, true, true,
+    false)), (String ((Ascii (false, false, true, true, false, true, true,
+    false)), (String ((Ascii (false, true, true, false, true, true, true,
+    false)), (String ((Ascii (false, true, true, false, true, false, true,
+    false)), (String ((Ascii (true, false, false, false, false, true, true,
+    false)), (String ((Ascii (false, false, true, true, false, true, true,
+    false)), (String ((Ascii (true, false, true, false, true, true, true,
+    false)), (String ((Ascii (true, false, true, false, false, true, true,
+    false)), (String ((Ascii (true, false, false, true, false, true, false,
+    false)), EmptyString)))))))))))))))))))))))))); gop = OpLT; glit = (Zpos
+    XH) } :: ({ gexpr = (String ((Ascii (false, false, true, true, false,
+    true, true, false)), (String ((Ascii (true, false, true, false, false,
+    true, true, false)), (String ((Ascii (false, true, true, true, false,
+    true, true, false)), (String ((Ascii (false, false, false, true, false,
+    true, false, false)), (String ((Ascii (false, false, true, false, true,
+    true, true, false)), (String ((Ascii (false, false, true, true, false,
+    true, true, false)), (String ((Ascii (false, true, true, false, true,
+    true, true, false)), (String ((Ascii (false, true, true, false, true,
+    false, true, false)), (String ((Ascii (true, false, false, false, false,
+    true, true, false)), (String ((Ascii (false, false, true, true, false,
+    true, true, false)), (String ((Ascii (true, false, true, false, true,
+    true, true, false)), (String ((Ascii (true, false, true, false, false,
+    true, true, false)), (String ((Ascii (true, false, false, true, false,
+    true, false, false)), EmptyString)))))))))))))))))))))))))); gop = OpGT;
+    glit = (Zpos (XI (XO (XI (XI (XI (XI (XI XH)))))))) } :: [])
 
 (** val g_NewTunnelPassword : guard list **)
 
@@ -1442,6 +1745,33 @@ let g_NewUserPassword =
     true, true, false)), EmptyString)); gop = OpLT; glit = (Zpos (XO (XO (XO
     (XO XH))))) } :: [])))))
 
+(** val g_NewVendorSpecific : guard list **)
+
+let g_NewVendorSpecific =
+  { gexpr = (String ((Ascii (false, false, true, true, false, true, true,
+    false)), (String ((Ascii (true, false, true, false, false, true, true,
+    false)), (String ((Ascii (false, true, true, true, false, true, true,
+    false)), (String ((Ascii (false, false, false, true, false, true, false,
+    false)), (String ((Ascii (false, true, true, false, true, true, true,
+    false)), (String ((Ascii (true, false, false, false, false, true, true,
+    false)), (String ((Ascii (false, false, true, true, false, true, true,
+    false)), (String ((Ascii (true, false, true, false, true, true, true,
+    false)), (String ((Ascii (true, false, true, false, false, true, true,
+    false)), (String ((Ascii (true, false, false, true, false, true, false,
+    false)), EmptyString)))))))))))))))))))); gop = OpLT; glit = (Zpos
+    XH) } :: ({ gexpr = (String ((Ascii (false, false, true, true, false,
+    true, true, false)), (String ((Ascii (true, false, true, false, false,
+    true, true, false)), (String ((Ascii (false, true, true, true, false,
+    true, true, false)), (String ((Ascii (false, false, false, true, false,
+    true, false, false)), (String ((Ascii (false, true, true, false, true,
+    true, true, false)), (String ((Ascii (true, false, false, false, false,
+    true, true, false)), (String ((Ascii (false, false, true, true, false,
+    true, true, false)), (String ((Ascii (true, false, true, false, true,
+    true, true, false)), (String ((Ascii (true, false, true, false, false,
+    true, true, false)), (String ((Ascii (true, false, false, true, false,
+    true, false, false)), EmptyString)))))))))))))))))))); gop = OpGT; glit =
+    (Zpos (XI (XO (XO (XI (XI (XI (XI XH)))))))) } :: [])
+
 (** val sW_Packet_Encode : z list list list **)
 
 let sW_Packet_Encode =
@@ -1531,6 +1861,37 @@ let g_ParseAttributes =
     ((Ascii (false, false, true, false, true, true, true, false)), (String
     ((Ascii (false, false, false, true, false, true, true, false)),
     EmptyString)))))))))))); gop = OpGT; glit = (Zpos (XO XH)) } :: []))))
+
+(** val g_Short : guard list **)
+
+let g_Short =
+  { gexpr = (String ((Ascii (false, false, true, true, false, true, true,
+    false)), (String ((Ascii (true, false, true, false, false, true, true,
+    false)), (String ((Ascii (false, true, true, true, false, true, true,
+    false)), (String ((Ascii (false, false, false, true, false, true, false,
+    false)), (String ((Ascii (true, false, false, false, false, true, true,
+    false)), (String ((Ascii (true, false, false, true, false, true, false,
+    false)), EmptyString)))))))))))); gop = OpNE; glit = (Zpos (XO
+    XH)) } :: []
+
+(** val g_TLV : guard list **)
+
+let g_TLV =
+  { gexpr = (String ((Ascii (false, false, true, true, false, true, true,
+    false)), (String ((Ascii (true, false, true, false, false, true, true,
+    false)), (String ((Ascii (false, true, true, true, false, true, true,
+    false)), (String ((Ascii (false, false, false, true, false, true, false,
+    false)), (String ((Ascii (true, false, false, false, false, true, true,
+    false)), (String ((Ascii (true, false, false, true, false, true, false,
+    false)), EmptyString)))))))))))); gop = OpLT; glit = (Zpos (XI
+    XH)) } :: ({ gexpr = (String ((Ascii (false, false, true, true, false,
+    true, true, false)), (String ((Ascii (true, false, true, false, false,
+    true, true, false)), (String ((Ascii (false, true, true, true, false,
+    true, true, false)), (String ((Ascii (false, false, false, true, false,
+    true, false, false)), (String ((Ascii (true, false, false, false, false,
+    true, true, false)), (String ((Ascii (true, false, false, true, false,
+    true, false, false)), EmptyString)))))))))))); gop = OpGT; glit = (Zpos
+    (XI (XI (XI (XI (XI (XI (XI XH)))))))) } :: [])
 
 (** val g_TunnelPassword : guard list **)
 
@@ -1701,6 +2062,18 @@ let g_UserPassword =
     OpNE; glit = (Zpos (XO (XO (XO (XO XH))))) } :: ({ gexpr = (String
     ((Ascii (true, false, false, true, false, true, true, false)),
     EmptyString)); gop = OpGT; glit = (Zneg XH) } :: [])))))
+
+(** val g_VendorSpecific : guard list **)
+
+let g_VendorSpecific =
+  { gexpr = (String ((Ascii (false, false, true, true, false, true, true,
+    false)), (String ((Ascii (true, false, true, false, false, true, true,
+    false)), (String ((Ascii (false, true, true, true, false, true, true,
+    false)), (String ((Ascii (false, false, false, true, false, true, false,
+    false)), (String ((Ascii (true, false, false, false, false, true, true,
+    false)), (String ((Ascii (true, false, false, true, false, true, false,
+    false)), EmptyString)))))))))))); gop = OpLT; glit = (Zpos (XI (XO
+    XH))) } :: []
 
 type avp = { atype : z; aval : bytes }
 
@@ -2290,6 +2663,595 @@ let tunnel_password h a sec ra =
                              | Panic -> Panic
                              | OutOfFuel -> OutOfFuel)
                           | _ -> Panic))
+
+(** val dec_uint : guard list -> bytes -> n res **)
+
+let dec_uint g a =
+  if holds (gd g O) (zlen a) then Err e_invalid else Ok (be_dec a)
+
+(** val integer : bytes -> n res **)
+
+let integer =
+  dec_uint g_Integer
+
+(** val short : bytes -> n res **)
+
+let short =
+  dec_uint g_Short
+
+(** val integer64 : bytes -> n res **)
+
+let integer64 =
+  dec_uint g_Integer64
+
+(** val new_integer : n -> bytes **)
+
+let new_integer i =
+  be_enc (S (S (S (S O)))) i
+
+(** val new_short : n -> bytes **)
+
+let new_short i =
+  be_enc (S (S O)) i
+
+(** val new_integer64 : n -> bytes **)
+
+let new_integer64 i =
+  be_enc (S (S (S (S (S (S (S (S O)))))))) i
+
+(** val new_string : bytes -> bytes res **)
+
+let new_string s =
+  if holds (gd g_NewString O) (zlen s) then Err e_invalid else Ok s
+
+(** val new_bytes : bytes -> bytes res **)
+
+let new_bytes b =
+  if holds (gd g_NewBytes O) (zlen b) then Err e_invalid else Ok b
+
+(** val all_zero : bytes -> bool **)
+
+let all_zero l =
+  forallb (fun b -> N.eqb b N0) l
+
+(** val to4 : bytes -> bytes option **)
+
+let to4 ip =
+  if Nat.eqb (length ip) (S (S (S (S O))))
+  then Some ip
+  else if (&&)
+            ((&&)
+              (Nat.eqb (length ip) (S (S (S (S (S (S (S (S (S (S (S (S (S (S
+                (S (S O)))))))))))))))))
+              (all_zero (firstn (S (S (S (S (S (S (S (S (S (S O)))))))))) ip)))
+            (beq
+              (firstn (S (S O))
+                (skipn (S (S (S (S (S (S (S (S (S (S O)))))))))) ip)) ((Npos
+              (XI (XI (XI (XI (XI (XI (XI XH)))))))) :: ((Npos (XI (XI (XI
+              (XI (XI (XI (XI XH)))))))) :: [])))
+       then Some (skipn (S (S (S (S (S (S (S (S (S (S (S (S O)))))))))))) ip)
+       else None
+
+(** val v4_in_v6_prefix : bytes **)
+
+let v4_in_v6_prefix =
+  app (repeat N0 (S (S (S (S (S (S (S (S (S (S O))))))))))) ((Npos (XI (XI
+    (XI (XI (XI (XI (XI XH)))))))) :: ((Npos (XI (XI (XI (XI (XI (XI (XI
+    XH)))))))) :: []))
+
+(** val to16 : bytes -> bytes option **)
+
+let to16 ip =
+  if Nat.eqb (length ip) (S (S (S (S O))))
+  then Some (app v4_in_v6_prefix ip)
+  else if Nat.eqb (length ip) (S (S (S (S (S (S (S (S (S (S (S (S (S (S (S (S
+            O))))))))))))))))
+       then Some ip
+       else None
+
+(** val ipaddr : bytes -> bytes res **)
+
+let ipaddr a =
+  if holds (gd g_IPAddr O) (zlen a) then Err e_invalid else Ok a
+
+(** val new_ipaddr : bytes -> bytes res **)
+
+let new_ipaddr ip =
+  match to4 ip with
+  | Some a -> Ok a
+  | None -> Err e_invalid
+
+(** val ipv6addr : bytes -> bytes res **)
+
+let ipv6addr a =
+  if holds (gd g_IPv6Addr O) (zlen a) then Err e_invalid else Ok a
+
+(** val new_ipv6addr : bytes -> bytes res **)
+
+let new_ipv6addr ip =
+  match to16 ip with
+  | Some a -> Ok a
+  | None -> Err e_invalid
+
+(** val ifid : bytes -> bytes res **)
+
+let ifid a =
+  if holds (gd g_IFID O) (zlen a) then Err e_invalid else Ok a
+
+(** val new_ifid : bytes -> bytes res **)
+
+let new_ifid addr =
+  if holds (gd g_NewIFID O) (zlen addr) then Err e_invalid else Ok addr
+
+(** val date : bytes -> z res **)
+
+let date a =
+  if holds (gd g_Date O) (zlen a)
+  then Err e_invalid
+  else Ok (Z.of_N (be_dec a))
+
+(** val new_date : z -> bytes res **)
+
+let new_date unix =
+  if (||) (holds (gd g_NewDate O) unix) (holds (gd g_NewDate (S O)) unix)
+  then Err e_invalid
+  else Ok
+         (be_enc (S (S (S (S O))))
+           (Z.to_N
+             (Z.modulo unix (Zpos (XO (XO (XO (XO (XO (XO (XO (XO (XO (XO (XO
+               (XO (XO (XO (XO (XO (XO (XO (XO (XO (XO (XO (XO (XO (XO (XO
+               (XO (XO (XO (XO (XO (XO XH))))))))))))))))))))))))))))))))))))
+
+(** val vendor_specific : bytes -> (n * bytes) res **)
+
+let vendor_specific a =
+  if holds (gd g_VendorSpecific O) (zlen a)
+  then Err e_invalid
+  else Ok ((be_dec (firstn (S (S (S (S O)))) a)), (skipn (S (S (S (S O)))) a))
+
+(** val new_vendor_specific : n -> bytes -> bytes res **)
+
+let new_vendor_specific id v =
+  if (||) (holds (gd g_NewVendorSpecific O) (zlen v))
+       (holds (gd g_NewVendorSpecific (S O)) (zlen v))
+  then Err e_invalid
+  else Ok (app (be_enc (S (S (S (S O)))) id) v)
+
+(** val tlv_dec : bytes -> (n * bytes) res **)
+
+let tlv_dec a =
+  if (||) (holds (gd g_TLV O) (zlen a)) (holds (gd g_TLV (S O)) (zlen a))
+  then Err e_invalid
+  else (match a with
+        | [] -> Panic
+        | t :: l0 ->
+          (match l0 with
+           | [] -> Panic
+           | l :: v ->
+             if negb (Z.eqb (Z.of_N l) (zlen a))
+             then Err e_invalid
+             else Ok (t, v)))
+
+(** val new_tlv : n -> bytes -> bytes res **)
+
+let new_tlv t v =
+  if (||) (holds (gd g_NewTLV O) (zlen v))
+       (holds (gd g_NewTLV (S O)) (zlen v))
+  then Err e_invalid
+  else Ok (t :: ((zbyte (Z.add (Zpos (XO XH)) (zlen v))) :: v))
+
+(** val byte_ones : n -> nat option **)
+
+let byte_ones v =
+  if N.eqb v N0
+  then Some O
+  else if N.eqb v (Npos (XO (XO (XO (XO (XO (XO (XO XH))))))))
+       then Some (S O)
+       else if N.eqb v (Npos (XO (XO (XO (XO (XO (XO (XI XH))))))))
+            then Some (S (S O))
+            else if N.eqb v (Npos (XO (XO (XO (XO (XO (XI (XI XH))))))))
+                 then Some (S (S (S O)))
+                 else if N.eqb v (Npos (XO (XO (XO (XO (XI (XI (XI XH))))))))
+                      then Some (S (S (S (S O))))
+                      else if N.eqb v (Npos (XO (XO (XO (XI (XI (XI (XI
+                                XH))))))))
+                           then Some (S (S (S (S (S O)))))
+                           else if N.eqb v (Npos (XO (XO (XI (XI (XI (XI (XI
+                                     XH))))))))
+                                then Some (S (S (S (S (S (S O))))))
+                                else if N.eqb v (Npos (XO (XI (XI (XI (XI (XI
+                                          (XI XH))))))))
+                                     then Some (S (S (S (S (S (S (S O)))))))
+                                     else if N.eqb v (Npos (XI (XI (XI (XI
+                                               (XI (XI (XI XH))))))))
+                                          then Some (S (S (S (S (S (S (S (S
+                                                 O))))))))
+                                          else None
+
+(** val mask_ones : bytes -> nat option **)
+
+let rec mask_ones = function
+| [] -> Some O
+| v :: r ->
+  if N.eqb v (Npos (XI (XI (XI (XI (XI (XI (XI XH))))))))
+  then (match mask_ones r with
+        | Some n0 -> Some (add (S (S (S (S (S (S (S (S O)))))))) n0)
+        | None -> None)
+  else (match byte_ones v with
+        | Some k -> if all_zero r then Some k else None
+        | None -> None)
+
+(** val mask_size : bytes -> nat * nat **)
+
+let mask_size m =
+  match mask_ones m with
+  | Some n0 -> (n0, (mul (S (S (S (S (S (S (S (S O)))))))) (length m)))
+  | None -> (O, O)
+
+(** val keep_top : n -> nat -> n **)
+
+let keep_top b k =
+  N.mul
+    (N.div b
+      (N.pow (Npos (XO XH))
+        (N.of_nat (sub (S (S (S (S (S (S (S (S O)))))))) k))))
+    (N.pow (Npos (XO XH))
+      (N.of_nat (sub (S (S (S (S (S (S (S (S O)))))))) k)))
+
+(** val new_ipv6prefix : bytes -> bytes -> bytes res **)
+
+let new_ipv6prefix ip mask0 =
+  if holds (gd g_NewIPv6Prefix O) (zlen ip)
+  then Err e_invalid
+  else let (ones, bits) = mask_size mask0 in
+       if holds (gd g_NewIPv6Prefix (S O)) (Z.of_nat bits)
+       then Err e_invalid
+       else let n0 =
+              Nat.div (add ones (S (S (S (S (S (S (S O)))))))) (S (S (S (S (S
+                (S (S (S O))))))))
+            in
+            let body = firstn n0 ip in
+            let body' =
+              if holds (gd g_NewIPv6Prefix (S (S O)))
+                   (Z.of_nat
+                     (Nat.modulo ones (S (S (S (S (S (S (S (S O))))))))))
+              then (match rev body with
+                    | [] -> body
+                    | last :: r ->
+                      app (rev r)
+                        ((keep_top last
+                           (Nat.modulo ones (S (S (S (S (S (S (S (S O)))))))))) :: []))
+              else body
+            in
+            Ok (N0 :: ((zbyte (Z.of_nat ones)) :: body'))
+
+(** val cidr_mask : nat -> nat -> bytes **)
+
+let rec cidr_mask ones = function
+| O -> []
+| S n' ->
+  if Nat.leb (S (S (S (S (S (S (S (S O)))))))) ones
+  then (Npos (XI (XI (XI (XI (XI (XI (XI
+         XH)))))))) :: (cidr_mask
+                         (sub ones (S (S (S (S (S (S (S (S O))))))))) n')
+  else (N.sub (Npos (XI (XI (XI (XI (XI (XI (XI XH))))))))
+         (N.sub
+           (N.pow (Npos (XO XH))
+             (N.of_nat (sub (S (S (S (S (S (S (S (S O)))))))) ones))) (Npos
+           XH))) :: (cidr_mask O n')
+
+(** val low_zero : n -> nat -> bool **)
+
+let low_zero b bit =
+  N.eqb
+    (N.modulo b
+      (N.pow (Npos (XO XH))
+        (N.of_nat (sub (S (S (S (S (S (S (S (S O)))))))) bit)))) N0
+
+(** val ipv6prefix : bytes -> (bytes * bytes) res **)
+
+let ipv6prefix a =
+  if (||) (holds (gd g_IPv6Prefix O) (zlen a))
+       (holds (gd g_IPv6Prefix (S O)) (zlen a))
+  then Err e_invalid
+  else (match a with
+        | [] -> Panic
+        | _ :: l ->
+          (match l with
+           | [] -> Panic
+           | pl :: data ->
+             if holds (gd g_IPv6Prefix (S (S O))) (Z.of_N pl)
+             then Err e_invalid
+             else let ip =
+                    firstn (S (S (S (S (S (S (S (S (S (S (S (S (S (S (S (S
+                      O))))))))))))))))
+                      (pad_to (S (S (S (S (S (S (S (S (S (S (S (S (S (S (S (S
+                        O)))))))))))))))) data)
+                  in
+                  let p = N.to_nat pl in
+                  let tail =
+                    skipn (Nat.div p (S (S (S (S (S (S (S (S O))))))))) ip
+                  in
+                  let ok =
+                    match tail with
+                    | [] -> true
+                    | b :: r ->
+                      (&&)
+                        (low_zero b
+                          (Nat.modulo p (S (S (S (S (S (S (S (S O))))))))))
+                        (all_zero r)
+                  in
+                  if ok
+                  then Ok (ip,
+                         (cidr_mask p (S (S (S (S (S (S (S (S (S (S (S (S (S
+                           (S (S (S O))))))))))))))))))
+                  else Err e_invalid))
+
+(** val spec_dec_uint : nat -> bytes -> n res **)
+
+let spec_dec_uint k a =
+  if Nat.eqb (length a) k then Ok (be_dec a) else Err e_invalid
+
+(** val spec_enc_uint : nat -> n -> bytes **)
+
+let spec_enc_uint =
+  be_enc
+
+(** val spec_new_octets : bytes -> bytes res **)
+
+let spec_new_octets s =
+  if Nat.leb (length s) (S (S (S (S (S (S (S (S (S (S (S (S (S (S (S (S (S (S
+       (S (S (S (S (S (S (S (S (S (S (S (S (S (S (S (S (S (S (S (S (S (S (S
+       (S (S (S (S (S (S (S (S (S (S (S (S (S (S (S (S (S (S (S (S (S (S (S
+       (S (S (S (S (S (S (S (S (S (S (S (S (S (S (S (S (S (S (S (S (S (S (S
+       (S (S (S (S (S (S (S (S (S (S (S (S (S (S (S (S (S (S (S (S (S (S (S
+       (S (S (S (S (S (S (S (S (S (S (S (S (S (S (S (S (S (S (S (S (S (S (S
+       (S (S (S (S (S (S (S (S (S (S (S (S (S (S (S (S (S (S (S (S (S (S (S
+       (S (S (S (S (S (S (S (S (S (S (S (S (S (S (S (S (S (S (S (S (S (S (S
+       (S (S (S (S (S (S (S (S (S (S (S (S (S (S (S (S (S (S (S (S (S (S (S
+       (S (S (S (S (S (S (S (S (S (S (S (S (S (S (S (S (S (S (S (S (S (S (S
+       (S (S (S (S (S (S (S (S (S (S (S (S (S (S (S (S (S (S (S (S (S (S (S
+       (S (S (S (S (S
+       O)))))))))))))))))))))))))))))))))))))))))))))))))))))))))))))))))))))))))))))))))))))))))))))))))))))))))))))))))))))))))))))))))))))))))))))))))))))))))))))))))))))))))))))))))))))))))))))))))))))))))))))))))))))))))))))))))))))))))))))))))))))))))))))
+  then Ok s
+  else Err e_invalid
+
+(** val v4_mapped_prefix : bytes **)
+
+let v4_mapped_prefix =
+  N0 :: (N0 :: (N0 :: (N0 :: (N0 :: (N0 :: (N0 :: (N0 :: (N0 :: (N0 :: ((Npos
+    (XI (XI (XI (XI (XI (XI (XI XH)))))))) :: ((Npos (XI (XI (XI (XI (XI (XI
+    (XI XH)))))))) :: [])))))))))))
+
+(** val ip_canon : bytes -> bytes option **)
+
+let ip_canon ip =
+  if Nat.eqb (length ip) (S (S (S (S O))))
+  then Some (app v4_mapped_prefix ip)
+  else if Nat.eqb (length ip) (S (S (S (S (S (S (S (S (S (S (S (S (S (S (S (S
+            O))))))))))))))))
+       then Some ip
+       else None
+
+(** val spec_new_ipaddr : bytes -> bytes res **)
+
+let spec_new_ipaddr ip =
+  if Nat.eqb (length ip) (S (S (S (S O))))
+  then Ok ip
+  else if (&&)
+            (Nat.eqb (length ip) (S (S (S (S (S (S (S (S (S (S (S (S (S (S (S
+              (S O)))))))))))))))))
+            (beq
+              (firstn (S (S (S (S (S (S (S (S (S (S (S (S O)))))))))))) ip)
+              v4_mapped_prefix)
+       then Ok (skipn (S (S (S (S (S (S (S (S (S (S (S (S O)))))))))))) ip)
+       else Err e_invalid
+
+(** val spec_fixed : nat -> bytes -> bytes res **)
+
+let spec_fixed k a =
+  if Nat.eqb (length a) k then Ok a else Err e_invalid
+
+(** val spec_new_ipv6addr : bytes -> bytes res **)
+
+let spec_new_ipv6addr ip =
+  match ip_canon ip with
+  | Some c -> Ok c
+  | None -> Err e_invalid
+
+(** val spec_new_date : z -> bytes res **)
+
+let spec_new_date unix =
+  if (&&) (Z.leb Z0 unix)
+       (Z.leb unix (Zpos (XI (XI (XI (XI (XI (XI (XI (XI (XI (XI (XI (XI (XI
+         (XI (XI (XI (XI (XI (XI (XI (XI (XI (XI (XI (XI (XI (XI (XI (XI (XI
+         (XI XH)))))))))))))))))))))))))))))))))
+  then Ok (be_enc (S (S (S (S O)))) (Z.to_N unix))
+  else Err e_invalid
+
+(** val spec_date : bytes -> z res **)
+
+let spec_date a =
+  if Nat.eqb (length a) (S (S (S (S O))))
+  then Ok (Z.of_N (be_dec a))
+  else Err e_invalid
+
+(** val spec_new_vsa : n -> bytes -> bytes res **)
+
+let spec_new_vsa id v =
+  if (&&) (Nat.leb (S O) (length v))
+       (Nat.leb (length v) (S (S (S (S (S (S (S (S (S (S (S (S (S (S (S (S (S
+         (S (S (S (S (S (S (S (S (S (S (S (S (S (S (S (S (S (S (S (S (S (S (S
+         (S (S (S (S (S (S (S (S (S (S (S (S (S (S (S (S (S (S (S (S (S (S (S
+         (S (S (S (S (S (S (S (S (S (S (S (S (S (S (S (S (S (S (S (S (S (S (S
+         (S (S (S (S (S (S (S (S (S (S (S (S (S (S (S (S (S (S (S (S (S (S (S
+         (S (S (S (S (S (S (S (S (S (S (S (S (S (S (S (S (S (S (S (S (S (S (S
+         (S (S (S (S (S (S (S (S (S (S (S (S (S (S (S (S (S (S (S (S (S (S (S
+         (S (S (S (S (S (S (S (S (S (S (S (S (S (S (S (S (S (S (S (S (S (S (S
+         (S (S (S (S (S (S (S (S (S (S (S (S (S (S (S (S (S (S (S (S (S (S (S
+         (S (S (S (S (S (S (S (S (S (S (S (S (S (S (S (S (S (S (S (S (S (S (S
+         (S (S (S (S (S (S (S (S (S (S (S (S (S (S (S (S (S (S (S (S (S (S (S
+         (S (S
+         O))))))))))))))))))))))))))))))))))))))))))))))))))))))))))))))))))))))))))))))))))))))))))))))))))))))))))))))))))))))))))))))))))))))))))))))))))))))))))))))))))))))))))))))))))))))))))))))))))))))))))))))))))))))))))))))))))))))))))))))))))))))))))
+  then Ok (app (be_enc (S (S (S (S O)))) id) v)
+  else Err e_invalid
+
+(** val spec_vsa : bytes -> (n * bytes) res **)
+
+let spec_vsa a =
+  if Nat.leb (S (S (S (S (S O))))) (length a)
+  then Ok ((be_dec (firstn (S (S (S (S O)))) a)), (skipn (S (S (S (S O)))) a))
+  else Err e_invalid
+
+(** val spec_new_tlv : n -> bytes -> bytes res **)
+
+let spec_new_tlv t v =
+  if (&&) (Nat.leb (S O) (length v))
+       (Nat.leb (length v) (S (S (S (S (S (S (S (S (S (S (S (S (S (S (S (S (S
+         (S (S (S (S (S (S (S (S (S (S (S (S (S (S (S (S (S (S (S (S (S (S (S
+         (S (S (S (S (S (S (S (S (S (S (S (S (S (S (S (S (S (S (S (S (S (S (S
+         (S (S (S (S (S (S (S (S (S (S (S (S (S (S (S (S (S (S (S (S (S (S (S
+         (S (S (S (S (S (S (S (S (S (S (S (S (S (S (S (S (S (S (S (S (S (S (S
+         (S (S (S (S (S (S (S (S (S (S (S (S (S (S (S (S (S (S (S (S (S (S (S
+         (S (S (S (S (S (S (S (S (S (S (S (S (S (S (S (S (S (S (S (S (S (S (S
+         (S (S (S (S (S (S (S (S (S (S (S (S (S (S (S (S (S (S (S (S (S (S (S
+         (S (S (S (S (S (S (S (S (S (S (S (S (S (S (S (S (S (S (S (S (S (S (S
+         (S (S (S (S (S (S (S (S (S (S (S (S (S (S (S (S (S (S (S (S (S (S (S
+         (S (S (S (S (S (S (S (S (S (S (S (S (S (S (S (S (S (S (S (S (S (S (S
+         (S (S (S (S (S (S
+         O))))))))))))))))))))))))))))))))))))))))))))))))))))))))))))))))))))))))))))))))))))))))))))))))))))))))))))))))))))))))))))))))))))))))))))))))))))))))))))))))))))))))))))))))))))))))))))))))))))))))))))))))))))))))))))))))))))))))))))))))))))))))))))))
+  then Ok (t :: ((N.of_nat (add (length v) (S (S O)))) :: v))
+  else Err e_invalid
+
+(** val spec_tlv6929 : bytes -> (n * bytes) res **)
+
+let spec_tlv6929 a = match a with
+| [] -> Err e_invalid
+| t :: l0 ->
+  (match l0 with
+   | [] -> Err e_invalid
+   | l :: v ->
+     if (&&)
+          ((&&) (Nat.leb (S (S (S O))) (length a))
+            (Nat.leb (length a) (S (S (S (S (S (S (S (S (S (S (S (S (S (S (S
+              (S (S (S (S (S (S (S (S (S (S (S (S (S (S (S (S (S (S (S (S (S
+              (S (S (S (S (S (S (S (S (S (S (S (S (S (S (S (S (S (S (S (S (S
+              (S (S (S (S (S (S (S (S (S (S (S (S (S (S (S (S (S (S (S (S (S
+              (S (S (S (S (S (S (S (S (S (S (S (S (S (S (S (S (S (S (S (S (S
+              (S (S (S (S (S (S (S (S (S (S (S (S (S (S (S (S (S (S (S (S (S
+              (S (S (S (S (S (S (S (S (S (S (S (S (S (S (S (S (S (S (S (S (S
+              (S (S (S (S (S (S (S (S (S (S (S (S (S (S (S (S (S (S (S (S (S
+              (S (S (S (S (S (S (S (S (S (S (S (S (S (S (S (S (S (S (S (S (S
+              (S (S (S (S (S (S (S (S (S (S (S (S (S (S (S (S (S (S (S (S (S
+              (S (S (S (S (S (S (S (S (S (S (S (S (S (S (S (S (S (S (S (S (S
+              (S (S (S (S (S (S (S (S (S (S (S (S (S (S (S (S (S (S (S (S (S
+              (S (S (S (S (S (S (S (S (S
+              O)))))))))))))))))))))))))))))))))))))))))))))))))))))))))))))))))))))))))))))))))))))))))))))))))))))))))))))))))))))))))))))))))))))))))))))))))))))))))))))))))))))))))))))))))))))))))))))))))))))))))))))))))))))))))))))))))))))))))))))))))))))))))))))))))
+          (Nat.eqb (N.to_nat l) (length a))
+     then Ok (t, v)
+     else Err e_invalid)
+
+(** val byte_bits : n -> bool list **)
+
+let byte_bits b =
+  map (fun i -> N.testbit b (N.of_nat i)) ((S (S (S (S (S (S (S
+    O))))))) :: ((S (S (S (S (S (S O)))))) :: ((S (S (S (S (S O))))) :: ((S
+    (S (S (S O)))) :: ((S (S (S O))) :: ((S (S O)) :: ((S
+    O) :: (O :: []))))))))
+
+(** val bits_of : bytes -> bool list **)
+
+let bits_of l =
+  flat_map byte_bits l
+
+(** val leading_ones : bool list -> nat **)
+
+let rec leading_ones = function
+| [] -> O
+| b :: r -> if b then S (leading_ones r) else O
+
+(** val spec_mask_ones : bytes -> nat option **)
+
+let spec_mask_ones m =
+  let bs = bits_of m in
+  let n0 = leading_ones bs in
+  if forallb negb (skipn n0 bs) then Some n0 else None
+
+(** val clear_low : n -> nat -> n **)
+
+let clear_low b keep =
+  N.sub b
+    (N.modulo b
+      (N.pow (Npos (XO XH))
+        (N.of_nat (sub (S (S (S (S (S (S (S (S O)))))))) keep))))
+
+(** val apply_mask : bytes -> nat -> bytes **)
+
+let rec apply_mask ip ones =
+  match ip with
+  | [] -> []
+  | b :: r ->
+    if Nat.leb (S (S (S (S (S (S (S (S O)))))))) ones
+    then b :: (apply_mask r (sub ones (S (S (S (S (S (S (S (S O))))))))))
+    else (clear_low b ones) :: (apply_mask r O)
+
+(** val mask_of : nat -> nat -> bytes **)
+
+let rec mask_of ones = function
+| O -> []
+| S n' ->
+  if Nat.leb (S (S (S (S (S (S (S (S O)))))))) ones
+  then (Npos (XI (XI (XI (XI (XI (XI (XI
+         XH)))))))) :: (mask_of (sub ones (S (S (S (S (S (S (S (S O)))))))))
+                         n')
+  else (clear_low (Npos (XI (XI (XI (XI (XI (XI (XI XH)))))))) ones) :: 
+         (mask_of O n')
+
+(** val spec_new_ipv6prefix : bytes -> bytes -> bytes res **)
+
+let spec_new_ipv6prefix ip mask0 =
+  if (||)
+       (negb
+         (Nat.eqb (length ip) (S (S (S (S (S (S (S (S (S (S (S (S (S (S (S (S
+           O))))))))))))))))))
+       (negb
+         (Nat.eqb (length mask0) (S (S (S (S (S (S (S (S (S (S (S (S (S (S (S
+           (S O))))))))))))))))))
+  then Err e_invalid
+  else (match spec_mask_ones mask0 with
+        | Some ones ->
+          Ok
+            (N0 :: ((N.of_nat ones) :: (firstn
+                                         (Nat.div
+                                           (add ones (S (S (S (S (S (S (S
+                                             O)))))))) (S (S (S (S (S (S (S
+                                           (S O))))))))) (apply_mask ip ones))))
+        | None -> Err e_invalid)
+
+(** val spec_ipv6prefix : bytes -> (bytes * bytes) res **)
+
+let spec_ipv6prefix = function
+| [] -> Err e_invalid
+| _ :: l ->
+  (match l with
+   | [] -> Err e_invalid
+   | pl :: data ->
+     if (&&)
+          (Nat.leb (length data) (S (S (S (S (S (S (S (S (S (S (S (S (S (S (S
+            (S O)))))))))))))))))
+          (N.leb pl (Npos (XO (XO (XO (XO (XO (XO (XO XH)))))))))
+     then let ip =
+            app data
+              (repeat N0
+                (sub (S (S (S (S (S (S (S (S (S (S (S (S (S (S (S (S
+                  O)))))))))))))))) (length data)))
+          in
+          if beq (apply_mask ip (N.to_nat pl)) ip
+          then Ok (ip,
+                 (mask_of (N.to_nat pl) (S (S (S (S (S (S (S (S (S (S (S (S
+                   (S (S (S (S O))))))))))))))))))
+          else Err e_invalid
+     else Err e_invalid)
 
 (** val is_key : z -> avp -> bool **)
 
@@ -4638,6 +5600,3703 @@ let dispatch_pw name bs _ =
                                               t_pair)
                                      else None
 
+(** val t_n : n -> tok list **)
+
+let t_n n0 =
+  (TI (Z.of_N n0)) :: []
+
+(** val t_z : z -> tok list **)
+
+let t_z z0 =
+  (TI z0) :: []
+
+(** val t_nb : (n * bytes) -> tok list **)
+
+let t_nb p =
+  (TI (Z.of_N (fst p))) :: ((TB (snd p)) :: [])
+
+(** val zn : z list -> n **)
+
+let zn zs =
+  Z.to_N (z1 zs)
+
+(** val dispatch_codec : bytes -> bytes list -> z list -> tok list option **)
+
+let dispatch_codec name bs zs =
+  if name_is name (String ((Ascii (true, false, true, true, false, true,
+       true, false)), (String ((Ascii (false, true, true, true, false, true,
+       false, false)), (String ((Ascii (true, false, false, true, false,
+       true, true, false)), (String ((Ascii (false, true, true, true, false,
+       true, true, false)), (String ((Ascii (false, false, true, false, true,
+       true, true, false)), (String ((Ascii (true, false, true, false, false,
+       true, true, false)), (String ((Ascii (true, true, true, false, false,
+       true, true, false)), (String ((Ascii (true, false, true, false, false,
+       true, true, false)), (String ((Ascii (false, true, false, false, true,
+       true, true, false)), EmptyString))))))))))))))))))
+  then Some (t_res (integer (b1 bs)) t_n)
+  else if name_is name (String ((Ascii (true, true, false, false, true, true,
+            true, false)), (String ((Ascii (false, true, true, true, false,
+            true, false, false)), (String ((Ascii (true, false, false, true,
+            false, true, true, false)), (String ((Ascii (false, true, true,
+            true, false, true, true, false)), (String ((Ascii (false, false,
+            true, false, true, true, true, false)), (String ((Ascii (true,
+            false, true, false, false, true, true, false)), (String ((Ascii
+            (true, true, true, false, false, true, true, false)), (String
+            ((Ascii (true, false, true, false, false, true, true, false)),
+            (String ((Ascii (false, true, false, false, true, true, true,
+            false)), EmptyString))))))))))))))))))
+       then Some (t_res_s (spec_dec_uint (S (S (S (S O)))) (b1 bs)) t_n)
+       else if name_is name (String ((Ascii (true, false, true, true, false,
+                 true, true, false)), (String ((Ascii (false, true, true,
+                 true, false, true, false, false)), (String ((Ascii (true,
+                 true, false, false, true, true, true, false)), (String
+                 ((Ascii (false, false, false, true, false, true, true,
+                 false)), (String ((Ascii (true, true, true, true, false,
+                 true, true, false)), (String ((Ascii (false, true, false,
+                 false, true, true, true, false)), (String ((Ascii (false,
+                 false, true, false, true, true, true, false)),
+                 EmptyString))))))))))))))
+            then Some (t_res (short (b1 bs)) t_n)
+            else if name_is name (String ((Ascii (true, true, false, false,
+                      true, true, true, false)), (String ((Ascii (false,
+                      true, true, true, false, true, false, false)), (String
+                      ((Ascii (true, true, false, false, true, true, true,
+                      false)), (String ((Ascii (false, false, false, true,
+                      false, true, true, false)), (String ((Ascii (true,
+                      true, true, true, false, true, true, false)), (String
+                      ((Ascii (false, true, false, false, true, true, true,
+                      false)), (String ((Ascii (false, false, true, false,
+                      true, true, true, false)), EmptyString))))))))))))))
+                 then Some (t_res_s (spec_dec_uint (S (S O)) (b1 bs)) t_n)
+                 else if name_is name (String ((Ascii (true, false, true,
+                           true, false, true, true, false)), (String ((Ascii
+                           (false, true, true, true, false, true, false,
+                           false)), (String ((Ascii (true, false, false,
+                           true, false, true, true, false)), (String ((Ascii
+                           (false, true, true, true, false, true, true,
+                           false)), (String ((Ascii (false, false, true,
+                           false, true, true, true, false)), (String ((Ascii
+                           (true, false, true, false, false, true, true,
+                           false)), (String ((Ascii (true, true, true, false,
+                           false, true, true, false)), (String ((Ascii (true,
+                           false, true, false, false, true, true, false)),
+                           (String ((Ascii (false, true, false, false, true,
+                           true, true, false)), (String ((Ascii (false, true,
+                           true, false, true, true, false, false)), (String
+                           ((Ascii (false, false, true, false, true, true,
+                           false, false)), EmptyString))))))))))))))))))))))
+                      then Some (t_res (integer64 (b1 bs)) t_n)
+                      else if name_is name (String ((Ascii (true, true,
+                                false, false, true, true, true, false)),
+                                (String ((Ascii (false, true, true, true,
+                                false, true, false, false)), (String ((Ascii
+                                (true, false, false, true, false, true, true,
+                                false)), (String ((Ascii (false, true, true,
+                                true, false, true, true, false)), (String
+                                ((Ascii (false, false, true, false, true,
+                                true, true, false)), (String ((Ascii (true,
+                                false, true, false, false, true, true,
+                                false)), (String ((Ascii (true, true, true,
+                                false, false, true, true, false)), (String
+                                ((Ascii (true, false, true, false, false,
+                                true, true, false)), (String ((Ascii (false,
+                                true, false, false, true, true, true,
+                                false)), (String ((Ascii (false, true, true,
+                                false, true, true, false, false)), (String
+                                ((Ascii (false, false, true, false, true,
+                                true, false, false)),
+                                EmptyString))))))))))))))))))))))
+                           then Some
+                                  (t_res_s
+                                    (spec_dec_uint (S (S (S (S (S (S (S (S
+                                      O)))))))) (b1 bs)) t_n)
+                           else if name_is name (String ((Ascii (true, false,
+                                     true, true, false, true, true, false)),
+                                     (String ((Ascii (false, true, true,
+                                     true, false, true, false, false)),
+                                     (String ((Ascii (false, true, true,
+                                     true, false, true, true, false)),
+                                     (String ((Ascii (true, false, true,
+                                     false, false, true, true, false)),
+                                     (String ((Ascii (true, true, true,
+                                     false, true, true, true, false)),
+                                     (String ((Ascii (true, true, true, true,
+                                     true, false, true, false)), (String
+                                     ((Ascii (true, false, false, true,
+                                     false, true, true, false)), (String
+                                     ((Ascii (false, true, true, true, false,
+                                     true, true, false)), (String ((Ascii
+                                     (false, false, true, false, true, true,
+                                     true, false)), (String ((Ascii (true,
+                                     false, true, false, false, true, true,
+                                     false)), (String ((Ascii (true, true,
+                                     true, false, false, true, true, false)),
+                                     (String ((Ascii (true, false, true,
+                                     false, false, true, true, false)),
+                                     (String ((Ascii (false, true, false,
+                                     false, true, true, true, false)),
+                                     EmptyString))))))))))))))))))))))))))
+                                then Some ((TB (new_integer (zn zs))) :: [])
+                                else if name_is name (String ((Ascii (true,
+                                          true, false, false, true, true,
+                                          true, false)), (String ((Ascii
+                                          (false, true, true, true, false,
+                                          true, false, false)), (String
+                                          ((Ascii (false, true, true, true,
+                                          false, true, true, false)), (String
+                                          ((Ascii (true, false, true, false,
+                                          false, true, true, false)), (String
+                                          ((Ascii (true, true, true, false,
+                                          true, true, true, false)), (String
+                                          ((Ascii (true, true, true, true,
+                                          true, false, true, false)), (String
+                                          ((Ascii (true, false, false, true,
+                                          false, true, true, false)), (String
+                                          ((Ascii (false, true, true, true,
+                                          false, true, true, false)), (String
+                                          ((Ascii (false, false, true, false,
+                                          true, true, true, false)), (String
+                                          ((Ascii (true, false, true, false,
+                                          false, true, true, false)), (String
+                                          ((Ascii (true, true, true, false,
+                                          false, true, true, false)), (String
+                                          ((Ascii (true, false, true, false,
+                                          false, true, true, false)), (String
+                                          ((Ascii (false, true, false, false,
+                                          true, true, true, false)),
+                                          EmptyString))))))))))))))))))))))))))
+                                     then Some ((TB
+                                            (spec_enc_uint (S (S (S (S O))))
+                                              (zn zs))) :: [])
+                                     else if name_is name (String ((Ascii
+                                               (true, false, true, true,
+                                               false, true, true, false)),
+                                               (String ((Ascii (false, true,
+                                               true, true, false, true,
+                                               false, false)), (String
+                                               ((Ascii (false, true, true,
+                                               true, false, true, true,
+                                               false)), (String ((Ascii
+                                               (true, false, true, false,
+                                               false, true, true, false)),
+                                               (String ((Ascii (true, true,
+                                               true, false, true, true, true,
+                                               false)), (String ((Ascii
+                                               (true, true, true, true, true,
+                                               false, true, false)), (String
+                                               ((Ascii (true, true, false,
+                                               false, true, true, true,
+                                               false)), (String ((Ascii
+                                               (false, false, false, true,
+                                               false, true, true, false)),
+                                               (String ((Ascii (true, true,
+                                               true, true, false, true, true,
+                                               false)), (String ((Ascii
+                                               (false, true, false, false,
+                                               true, true, true, false)),
+                                               (String ((Ascii (false, false,
+                                               true, false, true, true, true,
+                                               false)),
+                                               EmptyString))))))))))))))))))))))
+                                          then Some ((TB
+                                                 (new_short (zn zs))) :: [])
+                                          else if name_is name (String
+                                                    ((Ascii (true, true,
+                                                    false, false, true, true,
+                                                    true, false)), (String
+                                                    ((Ascii (false, true,
+                                                    true, true, false, true,
+                                                    false, false)), (String
+                                                    ((Ascii (false, true,
+                                                    true, true, false, true,
+                                                    true, false)), (String
+                                                    ((Ascii (true, false,
+                                                    true, false, false, true,
+                                                    true, false)), (String
+                                                    ((Ascii (true, true,
+                                                    true, false, true, true,
+                                                    true, false)), (String
+                                                    ((Ascii (true, true,
+                                                    true, true, true, false,
+                                                    true, false)), (String
+                                                    ((Ascii (true, true,
+                                                    false, false, true, true,
+                                                    true, false)), (String
+                                                    ((Ascii (false, false,
+                                                    false, true, false, true,
+                                                    true, false)), (String
+                                                    ((Ascii (true, true,
+                                                    true, true, false, true,
+                                                    true, false)), (String
+                                                    ((Ascii (false, true,
+                                                    false, false, true, true,
+                                                    true, false)), (String
+                                                    ((Ascii (false, false,
+                                                    true, false, true, true,
+                                                    true, false)),
+                                                    EmptyString))))))))))))))))))))))
+                                               then Some ((TB
+                                                      (spec_enc_uint (S (S
+                                                        O)) (zn zs))) :: [])
+                                               else if name_is name (String
+                                                         ((Ascii (true,
+                                                         false, true, true,
+                                                         false, true, true,
+                                                         false)), (String
+                                                         ((Ascii (false,
+                                                         true, true, true,
+                                                         false, true, false,
+                                                         false)), (String
+                                                         ((Ascii (false,
+                                                         true, true, true,
+                                                         false, true, true,
+                                                         false)), (String
+                                                         ((Ascii (true,
+                                                         false, true, false,
+                                                         false, true, true,
+                                                         false)), (String
+                                                         ((Ascii (true, true,
+                                                         true, false, true,
+                                                         true, true, false)),
+                                                         (String ((Ascii
+                                                         (true, true, true,
+                                                         true, true, false,
+                                                         true, false)),
+                                                         (String ((Ascii
+                                                         (true, false, false,
+                                                         true, false, true,
+                                                         true, false)),
+                                                         (String ((Ascii
+                                                         (false, true, true,
+                                                         true, false, true,
+                                                         true, false)),
+                                                         (String ((Ascii
+                                                         (false, false, true,
+                                                         false, true, true,
+                                                         true, false)),
+                                                         (String ((Ascii
+                                                         (true, false, true,
+                                                         false, false, true,
+                                                         true, false)),
+                                                         (String ((Ascii
+                                                         (true, true, true,
+                                                         false, false, true,
+                                                         true, false)),
+                                                         (String ((Ascii
+                                                         (true, false, true,
+                                                         false, false, true,
+                                                         true, false)),
+                                                         (String ((Ascii
+                                                         (false, true, false,
+                                                         false, true, true,
+                                                         true, false)),
+                                                         (String ((Ascii
+                                                         (false, true, true,
+                                                         false, true, true,
+                                                         false, false)),
+                                                         (String ((Ascii
+                                                         (false, false, true,
+                                                         false, true, true,
+                                                         false, false)),
+                                                         EmptyString))))))))))))))))))))))))))))))
+                                                    then Some ((TB
+                                                           (new_integer64
+                                                             (zn zs))) :: [])
+                                                    else if name_is name
+                                                              (String ((Ascii
+                                                              (true, true,
+                                                              false, false,
+                                                              true, true,
+                                                              true, false)),
+                                                              (String ((Ascii
+                                                              (false, true,
+                                                              true, true,
+                                                              false, true,
+                                                              false, false)),
+                                                              (String ((Ascii
+                                                              (false, true,
+                                                              true, true,
+                                                              false, true,
+                                                              true, false)),
+                                                              (String ((Ascii
+                                                              (true, false,
+                                                              true, false,
+                                                              false, true,
+                                                              true, false)),
+                                                              (String ((Ascii
+                                                              (true, true,
+                                                              true, false,
+                                                              true, true,
+                                                              true, false)),
+                                                              (String ((Ascii
+                                                              (true, true,
+                                                              true, true,
+                                                              true, false,
+                                                              true, false)),
+                                                              (String ((Ascii
+                                                              (true, false,
+                                                              false, true,
+                                                              false, true,
+                                                              true, false)),
+                                                              (String ((Ascii
+                                                              (false, true,
+                                                              true, true,
+                                                              false, true,
+                                                              true, false)),
+                                                              (String ((Ascii
+                                                              (false, false,
+                                                              true, false,
+                                                              true, true,
+                                                              true, false)),
+                                                              (String ((Ascii
+                                                              (true, false,
+                                                              true, false,
+                                                              false, true,
+                                                              true, false)),
+                                                              (String ((Ascii
+                                                              (true, true,
+                                                              true, false,
+                                                              false, true,
+                                                              true, false)),
+                                                              (String ((Ascii
+                                                              (true, false,
+                                                              true, false,
+                                                              false, true,
+                                                              true, false)),
+                                                              (String ((Ascii
+                                                              (false, true,
+                                                              false, false,
+                                                              true, true,
+                                                              true, false)),
+                                                              (String ((Ascii
+                                                              (false, true,
+                                                              true, false,
+                                                              true, true,
+                                                              false, false)),
+                                                              (String ((Ascii
+                                                              (false, false,
+                                                              true, false,
+                                                              true, true,
+                                                              false, false)),
+                                                              EmptyString))))))))))))))))))))))))))))))
+                                                         then Some ((TB
+                                                                (spec_enc_uint
+                                                                  (S (S (S (S
+                                                                  (S (S (S (S
+                                                                  O))))))))
+                                                                  (zn zs))) :: [])
+                                                         else if name_is name
+                                                                   (String
+                                                                   ((Ascii
+                                                                   (true,
+                                                                   false,
+                                                                   true,
+                                                                   true,
+                                                                   false,
+                                                                   true,
+                                                                   true,
+                                                                   false)),
+                                                                   (String
+                                                                   ((Ascii
+                                                                   (false,
+                                                                   true,
+                                                                   true,
+                                                                   true,
+                                                                   false,
+                                                                   true,
+                                                                   false,
+                                                                   false)),
+                                                                   (String
+                                                                   ((Ascii
+                                                                   (false,
+                                                                   true,
+                                                                   true,
+                                                                   true,
+                                                                   false,
+                                                                   true,
+                                                                   true,
+                                                                   false)),
+                                                                   (String
+                                                                   ((Ascii
+                                                                   (true,
+                                                                   false,
+                                                                   true,
+                                                                   false,
+                                                                   false,
+                                                                   true,
+                                                                   true,
+                                                                   false)),
+                                                                   (String
+                                                                   ((Ascii
+                                                                   (true,
+                                                                   true,
+                                                                   true,
+                                                                   false,
+                                                                   true,
+                                                                   true,
+                                                                   true,
+                                                                   false)),
+                                                                   (String
+                                                                   ((Ascii
+                                                                   (true,
+                                                                   true,
+                                                                   true,
+                                                                   true,
+                                                                   true,
+                                                                   false,
+                                                                   true,
+                                                                   false)),
+                                                                   (String
+                                                                   ((Ascii
+                                                                   (true,
+                                                                   true,
+                                                                   false,
+                                                                   false,
+                                                                   true,
+                                                                   true,
+                                                                   true,
+                                                                   false)),
+                                                                   (String
+                                                                   ((Ascii
+                                                                   (false,
+                                                                   false,
+                                                                   true,
+                                                                   false,
+                                                                   true,
+                                                                   true,
+                                                                   true,
+                                                                   false)),
+                                                                   (String
+                                                                   ((Ascii
+                                                                   (false,
+                                                                   true,
+                                                                   false,
+                                                                   false,
+                                                                   true,
+                                                                   true,
+                                                                   true,
+                                                                   false)),
+                                                                   (String
+                                                                   ((Ascii
+                                                                   (true,
+                                                                   false,
+                                                                   false,
+                                                                   true,
+                                                                   false,
+                                                                   true,
+                                                                   true,
+                                                                   false)),
+                                                                   (String
+                                                                   ((Ascii
+                                                                   (false,
+                                                                   true,
+                                                                   true,
+                                                                   true,
+                                                                   false,
+                                                                   true,
+                                                                   true,
+                                                                   false)),
+                                                                   (String
+                                                                   ((Ascii
+                                                                   (true,
+                                                                   true,
+                                                                   true,
+                                                                   false,
+                                                                   false,
+                                                                   true,
+                                                                   true,
+                                                                   false)),
+                                                                   EmptyString))))))))))))))))))))))))
+                                                              then Some
+                                                                    (t_res
+                                                                    (new_string
+                                                                    (b1 bs))
+                                                                    t_bytes)
+                                                              else if 
+                                                                    name_is
+                                                                    name
+                                                                    (String
+                                                                    ((Ascii
+                                                                    (true,
+                                                                    true,
+                                                                    false,
+                                                                    false,
+                                                                    true,
+                                                                    true,
+                                                                    true,
+                                                                    false)),
+                                                                    (String
+                                                                    ((Ascii
+                                                                    (false,
+                                                                    true,
+                                                                    true,
+                                                                    true,
+                                                                    false,
+                                                                    true,
+                                                                    false,
+                                                                    false)),
+                                                                    (String
+                                                                    ((Ascii
+                                                                    (false,
+                                                                    true,
+                                                                    true,
+                                                                    true,
+                                                                    false,
+                                                                    true,
+                                                                    true,
+                                                                    false)),
+                                                                    (String
+                                                                    ((Ascii
+                                                                    (true,
+                                                                    false,
+                                                                    true,
+                                                                    false,
+                                                                    false,
+                                                                    true,
+                                                                    true,
+                                                                    false)),
+                                                                    (String
+                                                                    ((Ascii
+                                                                    (true,
+                                                                    true,
+                                                                    true,
+                                                                    false,
+                                                                    true,
+                                                                    true,
+                                                                    true,
+                                                                    false)),
+                                                                    (String
+                                                                    ((Ascii
+                                                                    (true,
+                                                                    true,
+                                                                    true,
+                                                                    true,
+                                                                    true,
+                                                                    false,
+                                                                    true,
+                                                                    false)),
+                                                                    (String
+                                                                    ((Ascii
+                                                                    (true,
+                                                                    true,
+                                                                    false,
+                                                                    false,
+                                                                    true,
+                                                                    true,
+                                                                    true,
+                                                                    false)),
+                                                                    (String
+                                                                    ((Ascii
+                                                                    (false,
+                                                                    false,
+                                                                    true,
+                                                                    false,
+                                                                    true,
+                                                                    true,
+                                                                    true,
+                                                                    false)),
+                                                                    (String
+                                                                    ((Ascii
+                                                                    (false,
+                                                                    true,
+                                                                    false,
+                                                                    false,
+                                                                    true,
+                                                                    true,
+                                                                    true,
+                                                                    false)),
+                                                                    (String
+                                                                    ((Ascii
+                                                                    (true,
+                                                                    false,
+                                                                    false,
+                                                                    true,
+                                                                    false,
+                                                                    true,
+                                                                    true,
+                                                                    false)),
+                                                                    (String
+                                                                    ((Ascii
+                                                                    (false,
+                                                                    true,
+                                                                    true,
+                                                                    true,
+                                                                    false,
+                                                                    true,
+                                                                    true,
+                                                                    false)),
+                                                                    (String
+                                                                    ((Ascii
+                                                                    (true,
+                                                                    true,
+                                                                    true,
+                                                                    false,
+                                                                    false,
+                                                                    true,
+                                                                    true,
+                                                                    false)),
+                                                                    EmptyString))))))))))))))))))))))))
+                                                                   then 
+                                                                    Some
+                                                                    (t_res_s
+                                                                    (spec_new_octets
+                                                                    (b1 bs))
+                                                                    t_bytes)
+                                                                   else 
+                                                                    if 
+                                                                    name_is
+                                                                    name
+                                                                    (String
+                                                                    ((Ascii
+                                                                    (true,
+                                                                    false,
+                                                                    true,
+                                                                    true,
+                                                                    false,
+                                                                    true,
+                                                                    true,
+                                                                    false)),
+                                                                    (String
+                                                                    ((Ascii
+                                                                    (false,
+                                                                    true,
+                                                                    true,
+                                                                    true,
+                                                                    false,
+                                                                    true,
+                                                                    false,
+                                                                    false)),
+                                                                    (String
+                                                                    ((Ascii
+                                                                    (false,
+                                                                    true,
+                                                                    true,
+                                                                    true,
+                                                                    false,
+                                                                    true,
+                                                                    true,
+                                                                    false)),
+                                                                    (String
+                                                                    ((Ascii
+                                                                    (true,
+                                                                    false,
+                                                                    true,
+                                                                    false,
+                                                                    false,
+                                                                    true,
+                                                                    true,
+                                                                    false)),
+                                                                    (String
+                                                                    ((Ascii
+                                                                    (true,
+                                                                    true,
+                                                                    true,
+                                                                    false,
+                                                                    true,
+                                                                    true,
+                                                                    true,
+                                                                    false)),
+                                                                    (String
+                                                                    ((Ascii
+                                                                    (true,
+                                                                    true,
+                                                                    true,
+                                                                    true,
+                                                                    true,
+                                                                    false,
+                                                                    true,
+                                                                    false)),
+                                                                    (String
+                                                                    ((Ascii
+                                                                    (false,
+                                                                    true,
+                                                                    false,
+                                                                    false,
+                                                                    false,
+                                                                    true,
+                                                                    true,
+                                                                    false)),
+                                                                    (String
+                                                                    ((Ascii
+                                                                    (true,
+                                                                    false,
+                                                                    false,
+                                                                    true,
+                                                                    true,
+                                                                    true,
+                                                                    true,
+                                                                    false)),
+                                                                    (String
+                                                                    ((Ascii
+                                                                    (false,
+                                                                    false,
+                                                                    true,
+                                                                    false,
+                                                                    true,
+                                                                    true,
+                                                                    true,
+                                                                    false)),
+                                                                    (String
+                                                                    ((Ascii
+                                                                    (true,
+                                                                    false,
+                                                                    true,
+                                                                    false,
+                                                                    false,
+                                                                    true,
+                                                                    true,
+                                                                    false)),
+                                                                    (String
+                                                                    ((Ascii
+                                                                    (true,
+                                                                    true,
+                                                                    false,
+                                                                    false,
+                                                                    true,
+                                                                    true,
+                                                                    true,
+                                                                    false)),
+                                                                    EmptyString))))))))))))))))))))))
+                                                                    then 
+                                                                    Some
+                                                                    (t_res
+                                                                    (new_bytes
+                                                                    (b1 bs))
+                                                                    t_bytes)
+                                                                    else 
+                                                                    if 
+                                                                    name_is
+                                                                    name
+                                                                    (String
+                                                                    ((Ascii
+                                                                    (true,
+                                                                    true,
+                                                                    false,
+                                                                    false,
+                                                                    true,
+                                                                    true,
+                                                                    true,
+                                                                    false)),
+                                                                    (String
+                                                                    ((Ascii
+                                                                    (false,
+                                                                    true,
+                                                                    true,
+                                                                    true,
+                                                                    false,
+                                                                    true,
+                                                                    false,
+                                                                    false)),
+                                                                    (String
+                                                                    ((Ascii
+                                                                    (false,
+                                                                    true,
+                                                                    true,
+                                                                    true,
+                                                                    false,
+                                                                    true,
+                                                                    true,
+                                                                    false)),
+                                                                    (String
+                                                                    ((Ascii
+                                                                    (true,
+                                                                    false,
+                                                                    true,
+                                                                    false,
+                                                                    false,
+                                                                    true,
+                                                                    true,
+                                                                    false)),
+                                                                    (String
+                                                                    ((Ascii
+                                                                    (true,
+                                                                    true,
+                                                                    true,
+                                                                    false,
+                                                                    true,
+                                                                    true,
+                                                                    true,
+                                                                    false)),
+                                                                    (String
+                                                                    ((Ascii
+                                                                    (true,
+                                                                    true,
+                                                                    true,
+                                                                    true,
+                                                                    true,
+                                                                    false,
+                                                                    true,
+                                                                    false)),
+                                                                    (String
+                                                                    ((Ascii
+                                                                    (false,
+                                                                    true,
+                                                                    false,
+                                                                    false,
+                                                                    false,
+                                                                    true,
+                                                                    true,
+                                                                    false)),
+                                                                    (String
+                                                                    ((Ascii
+                                                                    (true,
+                                                                    false,
+                                                                    false,
+                                                                    true,
+                                                                    true,
+                                                                    true,
+                                                                    true,
+                                                                    false)),
+                                                                    (String
+                                                                    ((Ascii
+                                                                    (false,
+                                                                    false,
+                                                                    true,
+                                                                    false,
+                                                                    true,
+                                                                    true,
+                                                                    true,
+                                                                    false)),
+                                                                    (String
+                                                                    ((Ascii
+                                                                    (true,
+                                                                    false,
+                                                                    true,
+                                                                    false,
+                                                                    false,
+                                                                    true,
+                                                                    true,
+                                                                    false)),
+                                                                    (String
+                                                                    ((Ascii
+                                                                    (true,
+                                                                    true,
+                                                                    false,
+                                                                    false,
+                                                                    true,
+                                                                    true,
+                                                                    true,
+                                                                    false)),
+                                                                    EmptyString))))))))))))))))))))))
+                                                                    then 
+                                                                    Some
+                                                                    (t_res_s
+                                                                    (spec_new_octets
+                                                                    (b1 bs))
+                                                                    t_bytes)
+                                                                    else 
+                                                                    if 
+                                                                    name_is
+                                                                    name
+                                                                    (String
+                                                                    ((Ascii
+                                                                    (true,
+                                                                    false,
+                                                                    true,
+                                                                    true,
+                                                                    false,
+                                                                    true,
+                                                                    true,
+                                                                    false)),
+                                                                    (String
+                                                                    ((Ascii
+                                                                    (false,
+                                                                    true,
+                                                                    true,
+                                                                    true,
+                                                                    false,
+                                                                    true,
+                                                                    false,
+                                                                    false)),
+                                                                    (String
+                                                                    ((Ascii
+                                                                    (true,
+                                                                    false,
+                                                                    false,
+                                                                    true,
+                                                                    false,
+                                                                    true,
+                                                                    true,
+                                                                    false)),
+                                                                    (String
+                                                                    ((Ascii
+                                                                    (false,
+                                                                    false,
+                                                                    false,
+                                                                    false,
+                                                                    true,
+                                                                    true,
+                                                                    true,
+                                                                    false)),
+                                                                    (String
+                                                                    ((Ascii
+                                                                    (true,
+                                                                    false,
+                                                                    false,
+                                                                    false,
+                                                                    false,
+                                                                    true,
+                                                                    true,
+                                                                    false)),
+                                                                    (String
+                                                                    ((Ascii
+                                                                    (false,
+                                                                    false,
+                                                                    true,
+                                                                    false,
+                                                                    false,
+                                                                    true,
+                                                                    true,
+                                                                    false)),
+                                                                    (String
+                                                                    ((Ascii
+                                                                    (false,
+                                                                    false,
+                                                                    true,
+                                                                    false,
+                                                                    false,
+                                                                    true,
+                                                                    true,
+                                                                    false)),
+                                                                    (String
+                                                                    ((Ascii
+                                                                    (false,
+                                                                    true,
+                                                                    false,
+                                                                    false,
+                                                                    true,
+                                                                    true,
+                                                                    true,
+                                                                    false)),
+                                                                    EmptyString))))))))))))))))
+                                                                    then 
+                                                                    Some
+                                                                    (t_res
+                                                                    (ipaddr
+                                                                    (b1 bs))
+                                                                    t_bytes)
+                                                                    else 
+                                                                    if 
+                                                                    name_is
+                                                                    name
+                                                                    (String
+                                                                    ((Ascii
+                                                                    (true,
+                                                                    true,
+                                                                    false,
+                                                                    false,
+                                                                    true,
+                                                                    true,
+                                                                    true,
+                                                                    false)),
+                                                                    (String
+                                                                    ((Ascii
+                                                                    (false,
+                                                                    true,
+                                                                    true,
+                                                                    true,
+                                                                    false,
+                                                                    true,
+                                                                    false,
+                                                                    false)),
+                                                                    (String
+                                                                    ((Ascii
+                                                                    (true,
+                                                                    false,
+                                                                    false,
+                                                                    true,
+                                                                    false,
+                                                                    true,
+                                                                    true,
+                                                                    false)),
+                                                                    (String
+                                                                    ((Ascii
+                                                                    (false,
+                                                                    false,
+                                                                    false,
+                                                                    false,
+                                                                    true,
+                                                                    true,
+                                                                    true,
+                                                                    false)),
+                                                                    (String
+                                                                    ((Ascii
+                                                                    (true,
+                                                                    false,
+                                                                    false,
+                                                                    false,
+                                                                    false,
+                                                                    true,
+                                                                    true,
+                                                                    false)),
+                                                                    (String
+                                                                    ((Ascii
+                                                                    (false,
+                                                                    false,
+                                                                    true,
+                                                                    false,
+                                                                    false,
+                                                                    true,
+                                                                    true,
+                                                                    false)),
+                                                                    (String
+                                                                    ((Ascii
+                                                                    (false,
+                                                                    false,
+                                                                    true,
+                                                                    false,
+                                                                    false,
+                                                                    true,
+                                                                    true,
+                                                                    false)),
+                                                                    (String
+                                                                    ((Ascii
+                                                                    (false,
+                                                                    true,
+                                                                    false,
+                                                                    false,
+                                                                    true,
+                                                                    true,
+                                                                    true,
+                                                                    false)),
+                                                                    EmptyString))))))))))))))))
+                                                                    then 
+                                                                    Some
+                                                                    (t_res_s
+                                                                    (spec_fixed
+                                                                    (S (S (S
+                                                                    (S O))))
+                                                                    (b1 bs))
+                                                                    t_bytes)
+                                                                    else 
+                                                                    if 
+                                                                    name_is
+                                                                    name
+                                                                    (String
+                                                                    ((Ascii
+                                                                    (true,
+                                                                    false,
+                                                                    true,
+                                                                    true,
+                                                                    false,
+                                                                    true,
+                                                                    true,
+                                                                    false)),
+                                                                    (String
+                                                                    ((Ascii
+                                                                    (false,
+                                                                    true,
+                                                                    true,
+                                                                    true,
+                                                                    false,
+                                                                    true,
+                                                                    false,
+                                                                    false)),
+                                                                    (String
+                                                                    ((Ascii
+                                                                    (false,
+                                                                    true,
+                                                                    true,
+                                                                    true,
+                                                                    false,
+                                                                    true,
+                                                                    true,
+                                                                    false)),
+                                                                    (String
+                                                                    ((Ascii
+                                                                    (true,
+                                                                    false,
+                                                                    true,
+                                                                    false,
+                                                                    false,
+                                                                    true,
+                                                                    true,
+                                                                    false)),
+                                                                    (String
+                                                                    ((Ascii
+                                                                    (true,
+                                                                    true,
+                                                                    true,
+                                                                    false,
+                                                                    true,
+                                                                    true,
+                                                                    true,
+                                                                    false)),
+                                                                    (String
+                                                                    ((Ascii
+                                                                    (true,
+                                                                    true,
+                                                                    true,
+                                                                    true,
+                                                                    true,
+                                                                    false,
+                                                                    true,
+                                                                    false)),
+                                                                    (String
+                                                                    ((Ascii
+                                                                    (true,
+                                                                    false,
+                                                                    false,
+                                                                    true,
+                                                                    false,
+                                                                    true,
+                                                                    true,
+                                                                    false)),
+                                                                    (String
+                                                                    ((Ascii
+                                                                    (false,
+                                                                    false,
+                                                                    false,
+                                                                    false,
+                                                                    true,
+                                                                    true,
+                                                                    true,
+                                                                    false)),
+                                                                    (String
+                                                                    ((Ascii
+                                                                    (true,
+                                                                    false,
+                                                                    false,
+                                                                    false,
+                                                                    false,
+                                                                    true,
+                                                                    true,
+                                                                    false)),
+                                                                    (String
+                                                                    ((Ascii
+                                                                    (false,
+                                                                    false,
+                                                                    true,
+                                                                    false,
+                                                                    false,
+                                                                    true,
+                                                                    true,
+                                                                    false)),
+                                                                    (String
+                                                                    ((Ascii
+                                                                    (false,
+                                                                    false,
+                                                                    true,
+                                                                    false,
+                                                                    false,
+                                                                    true,
+                                                                    true,
+                                                                    false)),
+                                                                    (String
+                                                                    ((Ascii
+                                                                    (false,
+                                                                    true,
+                                                                    false,
+                                                                    false,
+                                                                    true,
+                                                                    true,
+                                                                    true,
+                                                                    false)),
+                                                                    EmptyString))))))))))))))))))))))))
+                                                                    then 
+                                                                    Some
+                                                                    (t_res
+                                                                    (new_ipaddr
+                                                                    (b1 bs))
+                                                                    t_bytes)
+                                                                    else 
+                                                                    if 
+                                                                    name_is
+                                                                    name
+                                                                    (String
+                                                                    ((Ascii
+                                                                    (true,
+                                                                    true,
+                                                                    false,
+                                                                    false,
+                                                                    true,
+                                                                    true,
+                                                                    true,
+                                                                    false)),
+                                                                    (String
+                                                                    ((Ascii
+                                                                    (false,
+                                                                    true,
+                                                                    true,
+                                                                    true,
+                                                                    false,
+                                                                    true,
+                                                                    false,
+                                                                    false)),
+                                                                    (String
+                                                                    ((Ascii
+                                                                    (false,
+                                                                    true,
+                                                                    true,
+                                                                    true,
+                                                                    false,
+                                                                    true,
+                                                                    true,
+                                                                    false)),
+                                                                    (String
+                                                                    ((Ascii
+                                                                    (true,
+                                                                    false,
+                                                                    true,
+                                                                    false,
+                                                                    false,
+                                                                    true,
+                                                                    true,
+                                                                    false)),
+                                                                    (String
+                                                                    ((Ascii
+                                                                    (true,
+                                                                    true,
+                                                                    true,
+                                                                    false,
+                                                                    true,
+                                                                    true,
+                                                                    true,
+                                                                    false)),
+                                                                    (String
+                                                                    ((Ascii
+                                                                    (true,
+                                                                    true,
+                                                                    true,
+                                                                    true,
+                                                                    true,
+                                                                    false,
+                                                                    true,
+                                                                    false)),
+                                                                    (String
+                                                                    ((Ascii
+                                                                    (true,
+                                                                    false,
+                                                                    false,
+                                                                    true,
+                                                                    false,
+                                                                    true,
+                                                                    true,
+                                                                    false)),
+                                                                    (String
+                                                                    ((Ascii
+                                                                    (false,
+                                                                    false,
+                                                                    false,
+                                                                    false,
+                                                                    true,
+                                                                    true,
+                                                                    true,
+                                                                    false)),
+                                                                    (String
+                                                                    ((Ascii
+                                                                    (true,
+                                                                    false,
+                                                                    false,
+                                                                    false,
+                                                                    false,
+                                                                    true,
+                                                                    true,
+                                                                    false)),
+                                                                    (String
+                                                                    ((Ascii
+                                                                    (false,
+                                                                    false,
+                                                                    true,
+                                                                    false,
+                                                                    false,
+                                                                    true,
+                                                                    true,
+                                                                    false)),
+                                                                    (String
+                                                                    ((Ascii
+                                                                    (false,
+                                                                    false,
+                                                                    true,
+                                                                    false,
+                                                                    false,
+                                                                    true,
+                                                                    true,
+                                                                    false)),
+                                                                    (String
+                                                                    ((Ascii
+                                                                    (false,
+                                                                    true,
+                                                                    false,
+                                                                    false,
+                                                                    true,
+                                                                    true,
+                                                                    true,
+                                                                    false)),
+                                                                    EmptyString))))))))))))))))))))))))
+                                                                    then 
+                                                                    Some
+                                                                    (t_res_s
+                                                                    (spec_new_ipaddr
+                                                                    (b1 bs))
+                                                                    t_bytes)
+                                                                    else 
+                                                                    if 
+                                                                    name_is
+                                                                    name
+                                                                    (String
+                                                                    ((Ascii
+                                                                    (true,
+                                                                    false,
+                                                                    true,
+                                                                    true,
+                                                                    false,
+                                                                    true,
+                                                                    true,
+                                                                    false)),
+                                                                    (String
+                                                                    ((Ascii
+                                                                    (false,
+                                                                    true,
+                                                                    true,
+                                                                    true,
+                                                                    false,
+                                                                    true,
+                                                                    false,
+                                                                    false)),
+                                                                    (String
+                                                                    ((Ascii
+                                                                    (true,
+                                                                    false,
+                                                                    false,
+                                                                    true,
+                                                                    false,
+                                                                    true,
+                                                                    true,
+                                                                    false)),
+                                                                    (String
+                                                                    ((Ascii
+                                                                    (false,
+                                                                    false,
+                                                                    false,
+                                                                    false,
+                                                                    true,
+                                                                    true,
+                                                                    true,
+                                                                    false)),
+                                                                    (String
+                                                                    ((Ascii
+                                                                    (false,
+                                                                    true,
+                                                                    true,
+                                                                    false,
+                                                                    true,
+                                                                    true,
+                                                                    true,
+                                                                    false)),
+                                                                    (String
+                                                                    ((Ascii
+                                                                    (false,
+                                                                    true,
+                                                                    true,
+                                                                    false,
+                                                                    true,
+                                                                    true,
+                                                                    false,
+                                                                    false)),
+                                                                    (String
+                                                                    ((Ascii
+                                                                    (true,
+                                                                    false,
+                                                                    false,
+                                                                    false,
+                                                                    false,
+                                                                    true,
+                                                                    true,
+                                                                    false)),
+                                                                    (String
+                                                                    ((Ascii
+                                                                    (false,
+                                                                    false,
+                                                                    true,
+                                                                    false,
+                                                                    false,
+                                                                    true,
+                                                                    true,
+                                                                    false)),
+                                                                    (String
+                                                                    ((Ascii
+                                                                    (false,
+                                                                    false,
+                                                                    true,
+                                                                    false,
+                                                                    false,
+                                                                    true,
+                                                                    true,
+                                                                    false)),
+                                                                    (String
+                                                                    ((Ascii
+                                                                    (false,
+                                                                    true,
+                                                                    false,
+                                                                    false,
+                                                                    true,
+                                                                    true,
+                                                                    true,
+                                                                    false)),
+                                                                    EmptyString))))))))))))))))))))
+                                                                    then 
+                                                                    Some
+                                                                    (t_res
+                                                                    (ipv6addr
+                                                                    (b1 bs))
+                                                                    t_bytes)
+                                                                    else 
+                                                                    if 
+                                                                    name_is
+                                                                    name
+                                                                    (String
+                                                                    ((Ascii
+                                                                    (true,
+                                                                    true,
+                                                                    false,
+                                                                    false,
+                                                                    true,
+                                                                    true,
+                                                                    true,
+                                                                    false)),
+                                                                    (String
+                                                                    ((Ascii
+                                                                    (false,
+                                                                    true,
+                                                                    true,
+                                                                    true,
+                                                                    false,
+                                                                    true,
+                                                                    false,
+                                                                    false)),
+                                                                    (String
+                                                                    ((Ascii
+                                                                    (true,
+                                                                    false,
+                                                                    false,
+                                                                    true,
+                                                                    false,
+                                                                    true,
+                                                                    true,
+                                                                    false)),
+                                                                    (String
+                                                                    ((Ascii
+                                                                    (false,
+                                                                    false,
+                                                                    false,
+                                                                    false,
+                                                                    true,
+                                                                    true,
+                                                                    true,
+                                                                    false)),
+                                                                    (String
+                                                                    ((Ascii
+                                                                    (false,
+                                                                    true,
+                                                                    true,
+                                                                    false,
+                                                                    true,
+                                                                    true,
+                                                                    true,
+                                                                    false)),
+                                                                    (String
+                                                                    ((Ascii
+                                                                    (false,
+                                                                    true,
+                                                                    true,
+                                                                    false,
+                                                                    true,
+                                                                    true,
+                                                                    false,
+                                                                    false)),
+                                                                    (String
+                                                                    ((Ascii
+                                                                    (true,
+                                                                    false,
+                                                                    false,
+                                                                    false,
+                                                                    false,
+                                                                    true,
+                                                                    true,
+                                                                    false)),
+                                                                    (String
+                                                                    ((Ascii
+                                                                    (false,
+                                                                    false,
+                                                                    true,
+                                                                    false,
+                                                                    false,
+                                                                    true,
+                                                                    true,
+                                                                    false)),
+                                                                    (String
+                                                                    ((Ascii
+                                                                    (false,
+                                                                    false,
+                                                                    true,
+                                                                    false,
+                                                                    false,
+                                                                    true,
+                                                                    true,
+                                                                    false)),
+                                                                    (String
+                                                                    ((Ascii
+                                                                    (false,
+                                                                    true,
+                                                                    false,
+                                                                    false,
+                                                                    true,
+                                                                    true,
+                                                                    true,
+                                                                    false)),
+                                                                    EmptyString))))))))))))))))))))
+                                                                    then 
+                                                                    Some
+                                                                    (t_res_s
+                                                                    (spec_fixed
+                                                                    (S (S (S
+                                                                    (S (S (S
+                                                                    (S (S (S
+                                                                    (S (S (S
+                                                                    (S (S (S
+                                                                    (S
+                                                                    O))))))))))))))))
+                                                                    (b1 bs))
+                                                                    t_bytes)
+                                                                    else 
+                                                                    if 
+                                                                    name_is
+                                                                    name
+                                                                    (String
+                                                                    ((Ascii
+                                                                    (true,
+                                                                    false,
+                                                                    true,
+                                                                    true,
+                                                                    false,
+                                                                    true,
+                                                                    true,
+                                                                    false)),
+                                                                    (String
+                                                                    ((Ascii
+                                                                    (false,
+                                                                    true,
+                                                                    true,
+                                                                    true,
+                                                                    false,
+                                                                    true,
+                                                                    false,
+                                                                    false)),
+                                                                    (String
+                                                                    ((Ascii
+                                                                    (false,
+                                                                    true,
+                                                                    true,
+                                                                    true,
+                                                                    false,
+                                                                    true,
+                                                                    true,
+                                                                    false)),
+                                                                    (String
+                                                                    ((Ascii
+                                                                    (true,
+                                                                    false,
+                                                                    true,
+                                                                    false,
+                                                                    false,
+                                                                    true,
+                                                                    true,
+                                                                    false)),
+                                                                    (String
+                                                                    ((Ascii
+                                                                    (true,
+                                                                    true,
+                                                                    true,
+                                                                    false,
+                                                                    true,
+                                                                    true,
+                                                                    true,
+                                                                    false)),
+                                                                    (String
+                                                                    ((Ascii
+                                                                    (true,
+                                                                    true,
+                                                                    true,
+                                                                    true,
+                                                                    true,
+                                                                    false,
+                                                                    true,
+                                                                    false)),
+                                                                    (String
+                                                                    ((Ascii
+                                                                    (true,
+                                                                    false,
+                                                                    false,
+                                                                    true,
+                                                                    false,
+                                                                    true,
+                                                                    true,
+                                                                    false)),
+                                                                    (String
+                                                                    ((Ascii
+                                                                    (false,
+                                                                    false,
+                                                                    false,
+                                                                    false,
+                                                                    true,
+                                                                    true,
+                                                                    true,
+                                                                    false)),
+                                                                    (String
+                                                                    ((Ascii
+                                                                    (false,
+                                                                    true,
+                                                                    true,
+                                                                    false,
+                                                                    true,
+                                                                    true,
+                                                                    true,
+                                                                    false)),
+                                                                    (String
+                                                                    ((Ascii
+                                                                    (false,
+                                                                    true,
+                                                                    true,
+                                                                    false,
+                                                                    true,
+                                                                    true,
+                                                                    false,
+                                                                    false)),
+                                                                    (String
+                                                                    ((Ascii
+                                                                    (true,
+                                                                    false,
+                                                                    false,
+                                                                    false,
+                                                                    false,
+                                                                    true,
+                                                                    true,
+                                                                    false)),
+                                                                    (String
+                                                                    ((Ascii
+                                                                    (false,
+                                                                    false,
+                                                                    true,
+                                                                    false,
+                                                                    false,
+                                                                    true,
+                                                                    true,
+                                                                    false)),
+                                                                    (String
+                                                                    ((Ascii
+                                                                    (false,
+                                                                    false,
+                                                                    true,
+                                                                    false,
+                                                                    false,
+                                                                    true,
+                                                                    true,
+                                                                    false)),
+                                                                    (String
+                                                                    ((Ascii
+                                                                    (false,
+                                                                    true,
+                                                                    false,
+                                                                    false,
+                                                                    true,
+                                                                    true,
+                                                                    true,
+                                                                    false)),
+                                                                    EmptyString))))))))))))))))))))))))))))
+                                                                    then 
+                                                                    Some
+                                                                    (t_res
+                                                                    (new_ipv6addr
+                                                                    (b1 bs))
+                                                                    t_bytes)
+                                                                    else 
+                                                                    if 
+                                                                    name_is
+                                                                    name
+                                                                    (String
+                                                                    ((Ascii
+                                                                    (true,
+                                                                    true,
+                                                                    false,
+                                                                    false,
+                                                                    true,
+                                                                    true,
+                                                                    true,
+                                                                    false)),
+                                                                    (String
+                                                                    ((Ascii
+                                                                    (false,
+                                                                    true,
+                                                                    true,
+                                                                    true,
+                                                                    false,
+                                                                    true,
+                                                                    false,
+                                                                    false)),
+                                                                    (String
+                                                                    ((Ascii
+                                                                    (false,
+                                                                    true,
+                                                                    true,
+                                                                    true,
+                                                                    false,
+                                                                    true,
+                                                                    true,
+                                                                    false)),
+                                                                    (String
+                                                                    ((Ascii
+                                                                    (true,
+                                                                    false,
+                                                                    true,
+                                                                    false,
+                                                                    false,
+                                                                    true,
+                                                                    true,
+                                                                    false)),
+                                                                    (String
+                                                                    ((Ascii
+                                                                    (true,
+                                                                    true,
+                                                                    true,
+                                                                    false,
+                                                                    true,
+                                                                    true,
+                                                                    true,
+                                                                    false)),
+                                                                    (String
+                                                                    ((Ascii
+                                                                    (true,
+                                                                    true,
+                                                                    true,
+                                                                    true,
+                                                                    true,
+                                                                    false,
+                                                                    true,
+                                                                    false)),
+                                                                    (String
+                                                                    ((Ascii
+                                                                    (true,
+                                                                    false,
+                                                                    false,
+                                                                    true,
+                                                                    false,
+                                                                    true,
+                                                                    true,
+                                                                    false)),
+                                                                    (String
+                                                                    ((Ascii
+                                                                    (false,
+                                                                    false,
+                                                                    false,
+                                                                    false,
+                                                                    true,
+                                                                    true,
+                                                                    true,
+                                                                    false)),
+                                                                    (String
+                                                                    ((Ascii
+                                                                    (false,
+                                                                    true,
+                                                                    true,
+                                                                    false,
+                                                                    true,
+                                                                    true,
+                                                                    true,
+                                                                    false)),
+                                                                    (String
+                                                                    ((Ascii
+                                                                    (false,
+                                                                    true,
+                                                                    true,
+                                                                    false,
+                                                                    true,
+                                                                    true,
+                                                                    false,
+                                                                    false)),
+                                                                    (String
+                                                                    ((Ascii
+                                                                    (true,
+                                                                    false,
+                                                                    false,
+                                                                    false,
+                                                                    false,
+                                                                    true,
+                                                                    true,
+                                                                    false)),
+                                                                    (String
+                                                                    ((Ascii
+                                                                    (false,
+                                                                    false,
+                                                                    true,
+                                                                    false,
+                                                                    false,
+                                                                    true,
+                                                                    true,
+                                                                    false)),
+                                                                    (String
+                                                                    ((Ascii
+                                                                    (false,
+                                                                    false,
+                                                                    true,
+                                                                    false,
+                                                                    false,
+                                                                    true,
+                                                                    true,
+                                                                    false)),
+                                                                    (String
+                                                                    ((Ascii
+                                                                    (false,
+                                                                    true,
+                                                                    false,
+                                                                    false,
+                                                                    true,
+                                                                    true,
+                                                                    true,
+                                                                    false)),
+                                                                    EmptyString))))))))))))))))))))))))))))
+                                                                    then 
+                                                                    Some
+                                                                    (t_res_s
+                                                                    (spec_new_ipv6addr
+                                                                    (b1 bs))
+                                                                    t_bytes)
+                                                                    else 
+                                                                    if 
+                                                                    name_is
+                                                                    name
+                                                                    (String
+                                                                    ((Ascii
+                                                                    (true,
+                                                                    false,
+                                                                    true,
+                                                                    true,
+                                                                    false,
+                                                                    true,
+                                                                    true,
+                                                                    false)),
+                                                                    (String
+                                                                    ((Ascii
+                                                                    (false,
+                                                                    true,
+                                                                    true,
+                                                                    true,
+                                                                    false,
+                                                                    true,
+                                                                    false,
+                                                                    false)),
+                                                                    (String
+                                                                    ((Ascii
+                                                                    (true,
+                                                                    false,
+                                                                    false,
+                                                                    true,
+                                                                    false,
+                                                                    true,
+                                                                    true,
+                                                                    false)),
+                                                                    (String
+                                                                    ((Ascii
+                                                                    (false,
+                                                                    true,
+                                                                    true,
+                                                                    false,
+                                                                    false,
+                                                                    true,
+                                                                    true,
+                                                                    false)),
+                                                                    (String
+                                                                    ((Ascii
+                                                                    (true,
+                                                                    false,
+                                                                    false,
+                                                                    true,
+                                                                    false,
+                                                                    true,
+                                                                    true,
+                                                                    false)),
+                                                                    (String
+                                                                    ((Ascii
+                                                                    (false,
+                                                                    false,
+                                                                    true,
+                                                                    false,
+                                                                    false,
+                                                                    true,
+                                                                    true,
+                                                                    false)),
+                                                                    EmptyString))))))))))))
+                                                                    then 
+                                                                    Some
+                                                                    (t_res
+                                                                    (ifid
+                                                                    (b1 bs))
+                                                                    t_bytes)
+                                                                    else 
+                                                                    if 
+                                                                    name_is
+                                                                    name
+                                                                    (String
+                                                                    ((Ascii
+                                                                    (true,
+                                                                    true,
+                                                                    false,
+                                                                    false,
+                                                                    true,
+                                                                    true,
+                                                                    true,
+                                                                    false)),
+                                                                    (String
+                                                                    ((Ascii
+                                                                    (false,
+                                                                    true,
+                                                                    true,
+                                                                    true,
+                                                                    false,
+                                                                    true,
+                                                                    false,
+                                                                    false)),
+                                                                    (String
+                                                                    ((Ascii
+                                                                    (true,
+                                                                    false,
+                                                                    false,
+                                                                    true,
+                                                                    false,
+                                                                    true,
+                                                                    true,
+                                                                    false)),
+                                                                    (String
+                                                                    ((Ascii
+                                                                    (false,
+                                                                    true,
+                                                                    true,
+                                                                    false,
+                                                                    false,
+                                                                    true,
+                                                                    true,
+                                                                    false)),
+                                                                    (String
+                                                                    ((Ascii
+                                                                    (true,
+                                                                    false,
+                                                                    false,
+                                                                    true,
+                                                                    false,
+                                                                    true,
+                                                                    true,
+                                                                    false)),
+                                                                    (String
+                                                                    ((Ascii
+                                                                    (false,
+                                                                    false,
+                                                                    true,
+                                                                    false,
+                                                                    false,
+                                                                    true,
+                                                                    true,
+                                                                    false)),
+                                                                    EmptyString))))))))))))
+                                                                    then 
+                                                                    Some
+                                                                    (t_res_s
+                                                                    (spec_fixed
+                                                                    (S (S (S
+                                                                    (S (S (S
+                                                                    (S (S
+                                                                    O))))))))
+                                                                    (b1 bs))
+                                                                    t_bytes)
+                                                                    else 
+                                                                    if 
+                                                                    name_is
+                                                                    name
+                                                                    (String
+                                                                    ((Ascii
+                                                                    (true,
+                                                                    false,
+                                                                    true,
+                                                                    true,
+                                                                    false,
+                                                                    true,
+                                                                    true,
+                                                                    false)),
+                                                                    (String
+                                                                    ((Ascii
+                                                                    (false,
+                                                                    true,
+                                                                    true,
+                                                                    true,
+                                                                    false,
+                                                                    true,
+                                                                    false,
+                                                                    false)),
+                                                                    (String
+                                                                    ((Ascii
+                                                                    (false,
+                                                                    true,
+                                                                    true,
+                                                                    true,
+                                                                    false,
+                                                                    true,
+                                                                    true,
+                                                                    false)),
+                                                                    (String
+                                                                    ((Ascii
+                                                                    (true,
+                                                                    false,
+                                                                    true,
+                                                                    false,
+                                                                    false,
+                                                                    true,
+                                                                    true,
+                                                                    false)),
+                                                                    (String
+                                                                    ((Ascii
+                                                                    (true,
+                                                                    true,
+                                                                    true,
+                                                                    false,
+                                                                    true,
+                                                                    true,
+                                                                    true,
+                                                                    false)),
+                                                                    (String
+                                                                    ((Ascii
+                                                                    (true,
+                                                                    true,
+                                                                    true,
+                                                                    true,
+                                                                    true,
+                                                                    false,
+                                                                    true,
+                                                                    false)),
+                                                                    (String
+                                                                    ((Ascii
+                                                                    (true,
+                                                                    false,
+                                                                    false,
+                                                                    true,
+                                                                    false,
+                                                                    true,
+                                                                    true,
+                                                                    false)),
+                                                                    (String
+                                                                    ((Ascii
+                                                                    (false,
+                                                                    true,
+                                                                    true,
+                                                                    false,
+                                                                    false,
+                                                                    true,
+                                                                    true,
+                                                                    false)),
+                                                                    (String
+                                                                    ((Ascii
+                                                                    (true,
+                                                                    false,
+                                                                    false,
+                                                                    true,
+                                                                    false,
+                                                                    true,
+                                                                    true,
+                                                                    false)),
+                                                                    (String
+                                                                    ((Ascii
+                                                                    (false,
+                                                                    false,
+                                                                    true,
+                                                                    false,
+                                                                    false,
+                                                                    true,
+                                                                    true,
+                                                                    false)),
+                                                                    EmptyString))))))))))))))))))))
+                                                                    then 
+                                                                    Some
+                                                                    (t_res
+                                                                    (new_ifid
+                                                                    (b1 bs))
+                                                                    t_bytes)
+                                                                    else 
+                                                                    if 
+                                                                    name_is
+                                                                    name
+                                                                    (String
+                                                                    ((Ascii
+                                                                    (true,
+                                                                    true,
+                                                                    false,
+                                                                    false,
+                                                                    true,
+                                                                    true,
+                                                                    true,
+                                                                    false)),
+                                                                    (String
+                                                                    ((Ascii
+                                                                    (false,
+                                                                    true,
+                                                                    true,
+                                                                    true,
+                                                                    false,
+                                                                    true,
+                                                                    false,
+                                                                    false)),
+                                                                    (String
+                                                                    ((Ascii
+                                                                    (false,
+                                                                    true,
+                                                                    true,
+                                                                    true,
+                                                                    false,
+                                                                    true,
+                                                                    true,
+                                                                    false)),
+                                                                    (String
+                                                                    ((Ascii
+                                                                    (true,
+                                                                    false,
+                                                                    true,
+                                                                    false,
+                                                                    false,
+                                                                    true,
+                                                                    true,
+                                                                    false)),
+                                                                    (String
+                                                                    ((Ascii
+                                                                    (true,
+                                                                    true,
+                                                                    true,
+                                                                    false,
+                                                                    true,
+                                                                    true,
+                                                                    true,
+                                                                    false)),
+                                                                    (String
+                                                                    ((Ascii
+                                                                    (true,
+                                                                    true,
+                                                                    true,
+                                                                    true,
+                                                                    true,
+                                                                    false,
+                                                                    true,
+                                                                    false)),
+                                                                    (String
+                                                                    ((Ascii
+                                                                    (true,
+                                                                    false,
+                                                                    false,
+                                                                    true,
+                                                                    false,
+                                                                    true,
+                                                                    true,
+                                                                    false)),
+                                                                    (String
+                                                                    ((Ascii
+                                                                    (false,
+                                                                    true,
+                                                                    true,
+                                                                    false,
+                                                                    false,
+                                                                    true,
+                                                                    true,
+                                                                    false)),
+                                                                    (String
+                                                                    ((Ascii
+                                                                    (true,
+                                                                    false,
+                                                                    false,
+                                                                    true,
+                                                                    false,
+                                                                    true,
+                                                                    true,
+                                                                    false)),
+                                                                    (String
+                                                                    ((Ascii
+                                                                    (false,
+                                                                    false,
+                                                                    true,
+                                                                    false,
+                                                                    false,
+                                                                    true,
+                                                                    true,
+                                                                    false)),
+                                                                    EmptyString))))))))))))))))))))
+                                                                    then 
+                                                                    Some
+                                                                    (t_res_s
+                                                                    (spec_fixed
+                                                                    (S (S (S
+                                                                    (S (S (S
+                                                                    (S (S
+                                                                    O))))))))
+                                                                    (b1 bs))
+                                                                    t_bytes)
+                                                                    else 
+                                                                    if 
+                                                                    name_is
+                                                                    name
+                                                                    (String
+                                                                    ((Ascii
+                                                                    (true,
+                                                                    false,
+                                                                    true,
+                                                                    true,
+                                                                    false,
+                                                                    true,
+                                                                    true,
+                                                                    false)),
+                                                                    (String
+                                                                    ((Ascii
+                                                                    (false,
+                                                                    true,
+                                                                    true,
+                                                                    true,
+                                                                    false,
+                                                                    true,
+                                                                    false,
+                                                                    false)),
+                                                                    (String
+                                                                    ((Ascii
+                                                                    (false,
+                                                                    false,
+                                                                    true,
+                                                                    false,
+                                                                    false,
+                                                                    true,
+                                                                    true,
+                                                                    false)),
+                                                                    (String
+                                                                    ((Ascii
+                                                                    (true,
+                                                                    false,
+                                                                    false,
+                                                                    false,
+                                                                    false,
+                                                                    true,
+                                                                    true,
+                                                                    false)),
+                                                                    (String
+                                                                    ((Ascii
+                                                                    (false,
+                                                                    false,
+                                                                    true,
+                                                                    false,
+                                                                    true,
+                                                                    true,
+                                                                    true,
+                                                                    false)),
+                                                                    (String
+                                                                    ((Ascii
+                                                                    (true,
+                                                                    false,
+                                                                    true,
+                                                                    false,
+                                                                    false,
+                                                                    true,
+                                                                    true,
+                                                                    false)),
+                                                                    EmptyString))))))))))))
+                                                                    then 
+                                                                    Some
+                                                                    (t_res
+                                                                    (date
+                                                                    (b1 bs))
+                                                                    t_z)
+                                                                    else 
+                                                                    if 
+                                                                    name_is
+                                                                    name
+                                                                    (String
+                                                                    ((Ascii
+                                                                    (true,
+                                                                    true,
+                                                                    false,
+                                                                    false,
+                                                                    true,
+                                                                    true,
+                                                                    true,
+                                                                    false)),
+                                                                    (String
+                                                                    ((Ascii
+                                                                    (false,
+                                                                    true,
+                                                                    true,
+                                                                    true,
+                                                                    false,
+                                                                    true,
+                                                                    false,
+                                                                    false)),
+                                                                    (String
+                                                                    ((Ascii
+                                                                    (false,
+                                                                    false,
+                                                                    true,
+                                                                    false,
+                                                                    false,
+                                                                    true,
+                                                                    true,
+                                                                    false)),
+                                                                    (String
+                                                                    ((Ascii
+                                                                    (true,
+                                                                    false,
+                                                                    false,
+                                                                    false,
+                                                                    false,
+                                                                    true,
+                                                                    true,
+                                                                    false)),
+                                                                    (String
+                                                                    ((Ascii
+                                                                    (false,
+                                                                    false,
+                                                                    true,
+                                                                    false,
+                                                                    true,
+                                                                    true,
+                                                                    true,
+                                                                    false)),
+                                                                    (String
+                                                                    ((Ascii
+                                                                    (true,
+                                                                    false,
+                                                                    true,
+                                                                    false,
+                                                                    false,
+                                                                    true,
+                                                                    true,
+                                                                    false)),
+                                                                    EmptyString))))))))))))
+                                                                    then 
+                                                                    Some
+                                                                    (t_res_s
+                                                                    (spec_date
+                                                                    (b1 bs))
+                                                                    t_z)
+                                                                    else 
+                                                                    if 
+                                                                    name_is
+                                                                    name
+                                                                    (String
+                                                                    ((Ascii
+                                                                    (true,
+                                                                    false,
+                                                                    true,
+                                                                    true,
+                                                                    false,
+                                                                    true,
+                                                                    true,
+                                                                    false)),
+                                                                    (String
+                                                                    ((Ascii
+                                                                    (false,
+                                                                    true,
+                                                                    true,
+                                                                    true,
+                                                                    false,
+                                                                    true,
+                                                                    false,
+                                                                    false)),
+                                                                    (String
+                                                                    ((Ascii
+                                                                    (false,
+                                                                    true,
+                                                                    true,
+                                                                    true,
+                                                                    false,
+                                                                    true,
+                                                                    true,
+                                                                    false)),
+                                                                    (String
+                                                                    ((Ascii
+                                                                    (true,
+                                                                    false,
+                                                                    true,
+                                                                    false,
+                                                                    false,
+                                                                    true,
+                                                                    true,
+                                                                    false)),
+                                                                    (String
+                                                                    ((Ascii
+                                                                    (true,
+                                                                    true,
+                                                                    true,
+                                                                    false,
+                                                                    true,
+                                                                    true,
+                                                                    true,
+                                                                    false)),
+                                                                    (String
+                                                                    ((Ascii
+                                                                    (true,
+                                                                    true,
+                                                                    true,
+                                                                    true,
+                                                                    true,
+                                                                    false,
+                                                                    true,
+                                                                    false)),
+                                                                    (String
+                                                                    ((Ascii
+                                                                    (false,
+                                                                    false,
+                                                                    true,
+                                                                    false,
+                                                                    false,
+                                                                    true,
+                                                                    true,
+                                                                    false)),
+                                                                    (String
+                                                                    ((Ascii
+                                                                    (true,
+                                                                    false,
+                                                                    false,
+                                                                    false,
+                                                                    false,
+                                                                    true,
+                                                                    true,
+                                                                    false)),
+                                                                    (String
+                                                                    ((Ascii
+                                                                    (false,
+                                                                    false,
+                                                                    true,
+                                                                    false,
+                                                                    true,
+                                                                    true,
+                                                                    true,
+                                                                    false)),
+                                                                    (String
+                                                                    ((Ascii
+                                                                    (true,
+                                                                    false,
+                                                                    true,
+                                                                    false,
+                                                                    false,
+                                                                    true,
+                                                                    true,
+                                                                    false)),
+                                                                    EmptyString))))))))))))))))))))
+                                                                    then 
+                                                                    Some
+                                                                    (t_res
+                                                                    (new_date
+                                                                    (z1 zs))
+                                                                    t_bytes)
+                                                                    else 
+                                                                    if 
+                                                                    name_is
+                                                                    name
+                                                                    (String
+                                                                    ((Ascii
+                                                                    (true,
+                                                                    true,
+                                                                    false,
+                                                                    false,
+                                                                    true,
+                                                                    true,
+                                                                    true,
+                                                                    false)),
+                                                                    (String
+                                                                    ((Ascii
+                                                                    (false,
+                                                                    true,
+                                                                    true,
+                                                                    true,
+                                                                    false,
+                                                                    true,
+                                                                    false,
+                                                                    false)),
+                                                                    (String
+                                                                    ((Ascii
+                                                                    (false,
+                                                                    true,
+                                                                    true,
+                                                                    true,
+                                                                    false,
+                                                                    true,
+                                                                    true,
+                                                                    false)),
+                                                                    (String
+                                                                    ((Ascii
+                                                                    (true,
+                                                                    false,
+                                                                    true,
+                                                                    false,
+                                                                    false,
+                                                                    true,
+                                                                    true,
+                                                                    false)),
+                                                                    (String
+                                                                    ((Ascii
+                                                                    (true,
+                                                                    true,
+                                                                    true,
+                                                                    false,
+                                                                    true,
+                                                                    true,
+                                                                    true,
+                                                                    false)),
+                                                                    (String
+                                                                    ((Ascii
+                                                                    (true,
+                                                                    true,
+                                                                    true,
+                                                                    true,
+                                                                    true,
+                                                                    false,
+                                                                    true,
+                                                                    false)),
+                                                                    (String
+                                                                    ((Ascii
+                                                                    (false,
+                                                                    false,
+                                                                    true,
+                                                                    false,
+                                                                    false,
+                                                                    true,
+                                                                    true,
+                                                                    false)),
+                                                                    (String
+                                                                    ((Ascii
+                                                                    (true,
+                                                                    false,
+                                                                    false,
+                                                                    false,
+                                                                    false,
+                                                                    true,
+                                                                    true,
+                                                                    false)),
+                                                                    (String
+                                                                    ((Ascii
+                                                                    (false,
+                                                                    false,
+                                                                    true,
+                                                                    false,
+                                                                    true,
+                                                                    true,
+                                                                    true,
+                                                                    false)),
+                                                                    (String
+                                                                    ((Ascii
+                                                                    (true,
+                                                                    false,
+                                                                    true,
+                                                                    false,
+                                                                    false,
+                                                                    true,
+                                                                    true,
+                                                                    false)),
+                                                                    EmptyString))))))))))))))))))))
+                                                                    then 
+                                                                    Some
+                                                                    (t_res_s
+                                                                    (spec_new_date
+                                                                    (z1 zs))
+                                                                    t_bytes)
+                                                                    else 
+                                                                    if 
+                                                                    name_is
+                                                                    name
+                                                                    (String
+                                                                    ((Ascii
+                                                                    (true,
+                                                                    false,
+                                                                    true,
+                                                                    true,
+                                                                    false,
+                                                                    true,
+                                                                    true,
+                                                                    false)),
+                                                                    (String
+                                                                    ((Ascii
+                                                                    (false,
+                                                                    true,
+                                                                    true,
+                                                                    true,
+                                                                    false,
+                                                                    true,
+                                                                    false,
+                                                                    false)),
+                                                                    (String
+                                                                    ((Ascii
+                                                                    (false,
+                                                                    true,
+                                                                    true,
+                                                                    false,
+                                                                    true,
+                                                                    true,
+                                                                    true,
+                                                                    false)),
+                                                                    (String
+                                                                    ((Ascii
+                                                                    (true,
+                                                                    true,
+                                                                    false,
+                                                                    false,
+                                                                    true,
+                                                                    true,
+                                                                    true,
+                                                                    false)),
+                                                                    (String
+                                                                    ((Ascii
+                                                                    (true,
+                                                                    false,
+                                                                    false,
+                                                                    false,
+                                                                    false,
+                                                                    true,
+                                                                    true,
+                                                                    false)),
+                                                                    EmptyString))))))))))
+                                                                    then 
+                                                                    Some
+                                                                    (t_res
+                                                                    (vendor_specific
+                                                                    (b1 bs))
+                                                                    t_nb)
+                                                                    else 
+                                                                    if 
+                                                                    name_is
+                                                                    name
+                                                                    (String
+                                                                    ((Ascii
+                                                                    (true,
+                                                                    true,
+                                                                    false,
+                                                                    false,
+                                                                    true,
+                                                                    true,
+                                                                    true,
+                                                                    false)),
+                                                                    (String
+                                                                    ((Ascii
+                                                                    (false,
+                                                                    true,
+                                                                    true,
+                                                                    true,
+                                                                    false,
+                                                                    true,
+                                                                    false,
+                                                                    false)),
+                                                                    (String
+                                                                    ((Ascii
+                                                                    (false,
+                                                                    true,
+                                                                    true,
+                                                                    false,
+                                                                    true,
+                                                                    true,
+                                                                    true,
+                                                                    false)),
+                                                                    (String
+                                                                    ((Ascii
+                                                                    (true,
+                                                                    true,
+                                                                    false,
+                                                                    false,
+                                                                    true,
+                                                                    true,
+                                                                    true,
+                                                                    false)),
+                                                                    (String
+                                                                    ((Ascii
+                                                                    (true,
+                                                                    false,
+                                                                    false,
+                                                                    false,
+                                                                    false,
+                                                                    true,
+                                                                    true,
+                                                                    false)),
+                                                                    EmptyString))))))))))
+                                                                    then 
+                                                                    Some
+                                                                    (t_res_s
+                                                                    (spec_vsa
+                                                                    (b1 bs))
+                                                                    t_nb)
+                                                                    else 
+                                                                    if 
+                                                                    name_is
+                                                                    name
+                                                                    (String
+                                                                    ((Ascii
+                                                                    (true,
+                                                                    false,
+                                                                    true,
+                                                                    true,
+                                                                    false,
+                                                                    true,
+                                                                    true,
+                                                                    false)),
+                                                                    (String
+                                                                    ((Ascii
+                                                                    (false,
+                                                                    true,
+                                                                    true,
+                                                                    true,
+                                                                    false,
+                                                                    true,
+                                                                    false,
+                                                                    false)),
+                                                                    (String
+                                                                    ((Ascii
+                                                                    (false,
+                                                                    true,
+                                                                    true,
+                                                                    true,
+                                                                    false,
+                                                                    true,
+                                                                    true,
+                                                                    false)),
+                                                                    (String
+                                                                    ((Ascii
+                                                                    (true,
+                                                                    false,
+                                                                    true,
+                                                                    false,
+                                                                    false,
+                                                                    true,
+                                                                    true,
+                                                                    false)),
+                                                                    (String
+                                                                    ((Ascii
+                                                                    (true,
+                                                                    true,
+                                                                    true,
+                                                                    false,
+                                                                    true,
+                                                                    true,
+                                                                    true,
+                                                                    false)),
+                                                                    (String
+                                                                    ((Ascii
+                                                                    (true,
+                                                                    true,
+                                                                    true,
+                                                                    true,
+                                                                    true,
+                                                                    false,
+                                                                    true,
+                                                                    false)),
+                                                                    (String
+                                                                    ((Ascii
+                                                                    (false,
+                                                                    true,
+                                                                    true,
+                                                                    false,
+                                                                    true,
+                                                                    true,
+                                                                    true,
+                                                                    false)),
+                                                                    (String
+                                                                    ((Ascii
+                                                                    (true,
+                                                                    true,
+                                                                    false,
+                                                                    false,
+                                                                    true,
+                                                                    true,
+                                                                    true,
+                                                                    false)),
+                                                                    (String
+                                                                    ((Ascii
+                                                                    (true,
+                                                                    false,
+                                                                    false,
+                                                                    false,
+                                                                    false,
+                                                                    true,
+                                                                    true,
+                                                                    false)),
+                                                                    EmptyString))))))))))))))))))
+                                                                    then 
+                                                                    Some
+                                                                    (t_res
+                                                                    (new_vendor_specific
+                                                                    (zn zs)
+                                                                    (b1 bs))
+                                                                    t_bytes)
+                                                                    else 
+                                                                    if 
+                                                                    name_is
+                                                                    name
+                                                                    (String
+                                                                    ((Ascii
+                                                                    (true,
+                                                                    true,
+                                                                    false,
+                                                                    false,
+                                                                    true,
+                                                                    true,
+                                                                    true,
+                                                                    false)),
+                                                                    (String
+                                                                    ((Ascii
+                                                                    (false,
+                                                                    true,
+                                                                    true,
+                                                                    true,
+                                                                    false,
+                                                                    true,
+                                                                    false,
+                                                                    false)),
+                                                                    (String
+                                                                    ((Ascii
+                                                                    (false,
+                                                                    true,
+                                                                    true,
+                                                                    true,
+                                                                    false,
+                                                                    true,
+                                                                    true,
+                                                                    false)),
+                                                                    (String
+                                                                    ((Ascii
+                                                                    (true,
+                                                                    false,
+                                                                    true,
+                                                                    false,
+                                                                    false,
+                                                                    true,
+                                                                    true,
+                                                                    false)),
+                                                                    (String
+                                                                    ((Ascii
+                                                                    (true,
+                                                                    true,
+                                                                    true,
+                                                                    false,
+                                                                    true,
+                                                                    true,
+                                                                    true,
+                                                                    false)),
+                                                                    (String
+                                                                    ((Ascii
+                                                                    (true,
+                                                                    true,
+                                                                    true,
+                                                                    true,
+                                                                    true,
+                                                                    false,
+                                                                    true,
+                                                                    false)),
+                                                                    (String
+                                                                    ((Ascii
+                                                                    (false,
+                                                                    true,
+                                                                    true,
+                                                                    false,
+                                                                    true,
+                                                                    true,
+                                                                    true,
+                                                                    false)),
+                                                                    (String
+                                                                    ((Ascii
+                                                                    (true,
+                                                                    true,
+                                                                    false,
+                                                                    false,
+                                                                    true,
+                                                                    true,
+                                                                    true,
+                                                                    false)),
+                                                                    (String
+                                                                    ((Ascii
+                                                                    (true,
+                                                                    false,
+                                                                    false,
+                                                                    false,
+                                                                    false,
+                                                                    true,
+                                                                    true,
+                                                                    false)),
+                                                                    EmptyString))))))))))))))))))
+                                                                    then 
+                                                                    Some
+                                                                    (t_res_s
+                                                                    (spec_new_vsa
+                                                                    (zn zs)
+                                                                    (b1 bs))
+                                                                    t_bytes)
+                                                                    else 
+                                                                    if 
+                                                                    name_is
+                                                                    name
+                                                                    (String
+                                                                    ((Ascii
+                                                                    (true,
+                                                                    false,
+                                                                    true,
+                                                                    true,
+                                                                    false,
+                                                                    true,
+                                                                    true,
+                                                                    false)),
+                                                                    (String
+                                                                    ((Ascii
+                                                                    (false,
+                                                                    true,
+                                                                    true,
+                                                                    true,
+                                                                    false,
+                                                                    true,
+                                                                    false,
+                                                                    false)),
+                                                                    (String
+                                                                    ((Ascii
+                                                                    (false,
+                                                                    false,
+                                                                    true,
+                                                                    false,
+                                                                    true,
+                                                                    true,
+                                                                    true,
+                                                                    false)),
+                                                                    (String
+                                                                    ((Ascii
+                                                                    (false,
+                                                                    false,
+                                                                    true,
+                                                                    true,
+                                                                    false,
+                                                                    true,
+                                                                    true,
+                                                                    false)),
+                                                                    (String
+                                                                    ((Ascii
+                                                                    (false,
+                                                                    true,
+                                                                    true,
+                                                                    false,
+                                                                    true,
+                                                                    true,
+                                                                    true,
+                                                                    false)),
+                                                                    EmptyString))))))))))
+                                                                    then 
+                                                                    Some
+                                                                    (t_res
+                                                                    (tlv_dec
+                                                                    (b1 bs))
+                                                                    t_nb)
+                                                                    else 
+                                                                    if 
+                                                                    name_is
+                                                                    name
+                                                                    (String
+                                                                    ((Ascii
+                                                                    (true,
+                                                                    true,
+                                                                    false,
+                                                                    false,
+                                                                    true,
+                                                                    true,
+                                                                    true,
+                                                                    false)),
+                                                                    (String
+                                                                    ((Ascii
+                                                                    (false,
+                                                                    true,
+                                                                    true,
+                                                                    true,
+                                                                    false,
+                                                                    true,
+                                                                    false,
+                                                                    false)),
+                                                                    (String
+                                                                    ((Ascii
+                                                                    (false,
+                                                                    false,
+                                                                    true,
+                                                                    false,
+                                                                    true,
+                                                                    true,
+                                                                    true,
+                                                                    false)),
+                                                                    (String
+                                                                    ((Ascii
+                                                                    (false,
+                                                                    false,
+                                                                    true,
+                                                                    true,
+                                                                    false,
+                                                                    true,
+                                                                    true,
+                                                                    false)),
+                                                                    (String
+                                                                    ((Ascii
+                                                                    (false,
+                                                                    true,
+                                                                    true,
+                                                                    false,
+                                                                    true,
+                                                                    true,
+                                                                    true,
+                                                                    false)),
+                                                                    EmptyString))))))))))
+                                                                    then 
+                                                                    Some
+                                                                    (t_res_s
+                                                                    (spec_tlv6929
+                                                                    (b1 bs))
+                                                                    t_nb)
+                                                                    else 
+                                                                    if 
+                                                                    name_is
+                                                                    name
+                                                                    (String
+                                                                    ((Ascii
+                                                                    (true,
+                                                                    false,
+                                                                    true,
+                                                                    true,
+                                                                    false,
+                                                                    true,
+                                                                    true,
+                                                                    false)),
+                                                                    (String
+                                                                    ((Ascii
+                                                                    (false,
+                                                                    true,
+                                                                    true,
+                                                                    true,
+                                                                    false,
+                                                                    true,
+                                                                    false,
+                                                                    false)),
+                                                                    (String
+                                                                    ((Ascii
+                                                                    (false,
+                                                                    true,
+                                                                    true,
+                                                                    true,
+                                                                    false,
+                                                                    true,
+                                                                    true,
+                                                                    false)),
+                                                                    (String
+                                                                    ((Ascii
+                                                                    (true,
+                                                                    false,
+                                                                    true,
+                                                                    false,
+                                                                    false,
+                                                                    true,
+                                                                    true,
+                                                                    false)),
+                                                                    (String
+                                                                    ((Ascii
+                                                                    (true,
+                                                                    true,
+                                                                    true,
+                                                                    false,
+                                                                    true,
+                                                                    true,
+                                                                    true,
+                                                                    false)),
+                                                                    (String
+                                                                    ((Ascii
+                                                                    (true,
+                                                                    true,
+                                                                    true,
+                                                                    true,
+                                                                    true,
+                                                                    false,
+                                                                    true,
+                                                                    false)),
+                                                                    (String
+                                                                    ((Ascii
+                                                                    (false,
+                                                                    false,
+                                                                    true,
+                                                                    false,
+                                                                    true,
+                                                                    true,
+                                                                    true,
+                                                                    false)),
+                                                                    (String
+                                                                    ((Ascii
+                                                                    (false,
+                                                                    false,
+                                                                    true,
+                                                                    true,
+                                                                    false,
+                                                                    true,
+                                                                    true,
+                                                                    false)),
+                                                                    (String
+                                                                    ((Ascii
+                                                                    (false,
+                                                                    true,
+                                                                    true,
+                                                                    false,
+                                                                    true,
+                                                                    true,
+                                                                    true,
+                                                                    false)),
+                                                                    EmptyString))))))))))))))))))
+                                                                    then 
+                                                                    Some
+                                                                    (t_res
+                                                                    (new_tlv
+                                                                    (zn zs)
+                                                                    (b1 bs))
+                                                                    t_bytes)
+                                                                    else 
+                                                                    if 
+                                                                    name_is
+                                                                    name
+                                                                    (String
+                                                                    ((Ascii
+                                                                    (true,
+                                                                    true,
+                                                                    false,
+                                                                    false,
+                                                                    true,
+                                                                    true,
+                                                                    true,
+                                                                    false)),
+                                                                    (String
+                                                                    ((Ascii
+                                                                    (false,
+                                                                    true,
+                                                                    true,
+                                                                    true,
+                                                                    false,
+                                                                    true,
+                                                                    false,
+                                                                    false)),
+                                                                    (String
+                                                                    ((Ascii
+                                                                    (false,
+                                                                    true,
+                                                                    true,
+                                                                    true,
+                                                                    false,
+                                                                    true,
+                                                                    true,
+                                                                    false)),
+                                                                    (String
+                                                                    ((Ascii
+                                                                    (true,
+                                                                    false,
+                                                                    true,
+                                                                    false,
+                                                                    false,
+                                                                    true,
+                                                                    true,
+                                                                    false)),
+                                                                    (String
+                                                                    ((Ascii
+                                                                    (true,
+                                                                    true,
+                                                                    true,
+                                                                    false,
+                                                                    true,
+                                                                    true,
+                                                                    true,
+                                                                    false)),
+                                                                    (String
+                                                                    ((Ascii
+                                                                    (true,
+                                                                    true,
+                                                                    true,
+                                                                    true,
+                                                                    true,
+                                                                    false,
+                                                                    true,
+                                                                    false)),
+                                                                    (String
+                                                                    ((Ascii
+                                                                    (false,
+                                                                    false,
+                                                                    true,
+                                                                    false,
+                                                                    true,
+                                                                    true,
+                                                                    true,
+                                                                    false)),
+                                                                    (String
+                                                                    ((Ascii
+                                                                    (false,
+                                                                    false,
+                                                                    true,
+                                                                    true,
+                                                                    false,
+                                                                    true,
+                                                                    true,
+                                                                    false)),
+                                                                    (String
+                                                                    ((Ascii
+                                                                    (false,
+                                                                    true,
+                                                                    true,
+                                                                    false,
+                                                                    true,
+                                                                    true,
+                                                                    true,
+                                                                    false)),
+                                                                    EmptyString))))))))))))))))))
+                                                                    then 
+                                                                    Some
+                                                                    (t_res_s
+                                                                    (spec_new_tlv
+                                                                    (zn zs)
+                                                                    (b1 bs))
+                                                                    t_bytes)
+                                                                    else 
+                                                                    if 
+                                                                    name_is
+                                                                    name
+                                                                    (String
+                                                                    ((Ascii
+                                                                    (true,
+                                                                    false,
+                                                                    true,
+                                                                    true,
+                                                                    false,
+                                                                    true,
+                                                                    true,
+                                                                    false)),
+                                                                    (String
+                                                                    ((Ascii
+                                                                    (false,
+                                                                    true,
+                                                                    true,
+                                                                    true,
+                                                                    false,
+                                                                    true,
+                                                                    false,
+                                                                    false)),
+                                                                    (String
+                                                                    ((Ascii
+                                                                    (false,
+                                                                    false,
+                                                                    false,
+                                                                    false,
+                                                                    true,
+                                                                    true,
+                                                                    true,
+                                                                    false)),
+                                                                    (String
+                                                                    ((Ascii
+                                                                    (false,
+                                                                    true,
+                                                                    false,
+                                                                    false,
+                                                                    true,
+                                                                    true,
+                                                                    true,
+                                                                    false)),
+                                                                    (String
+                                                                    ((Ascii
+                                                                    (true,
+                                                                    false,
+                                                                    true,
+                                                                    false,
+                                                                    false,
+                                                                    true,
+                                                                    true,
+                                                                    false)),
+                                                                    (String
+                                                                    ((Ascii
+                                                                    (false,
+                                                                    true,
+                                                                    true,
+                                                                    false,
+                                                                    false,
+                                                                    true,
+                                                                    true,
+                                                                    false)),
+                                                                    (String
+                                                                    ((Ascii
+                                                                    (true,
+                                                                    false,
+                                                                    false,
+                                                                    true,
+                                                                    false,
+                                                                    true,
+                                                                    true,
+                                                                    false)),
+                                                                    (String
+                                                                    ((Ascii
+                                                                    (false,
+                                                                    false,
+                                                                    false,
+                                                                    true,
+                                                                    true,
+                                                                    true,
+                                                                    true,
+                                                                    false)),
+                                                                    EmptyString))))))))))))))))
+                                                                    then 
+                                                                    Some
+                                                                    (t_res
+                                                                    (ipv6prefix
+                                                                    (b1 bs))
+                                                                    t_pair)
+                                                                    else 
+                                                                    if 
+                                                                    name_is
+                                                                    name
+                                                                    (String
+                                                                    ((Ascii
+                                                                    (true,
+                                                                    true,
+                                                                    false,
+                                                                    false,
+                                                                    true,
+                                                                    true,
+                                                                    true,
+                                                                    false)),
+                                                                    (String
+                                                                    ((Ascii
+                                                                    (false,
+                                                                    true,
+                                                                    true,
+                                                                    true,
+                                                                    false,
+                                                                    true,
+                                                                    false,
+                                                                    false)),
+                                                                    (String
+                                                                    ((Ascii
+                                                                    (false,
+                                                                    false,
+                                                                    false,
+                                                                    false,
+                                                                    true,
+                                                                    true,
+                                                                    true,
+                                                                    false)),
+                                                                    (String
+                                                                    ((Ascii
+                                                                    (false,
+                                                                    true,
+                                                                    false,
+                                                                    false,
+                                                                    true,
+                                                                    true,
+                                                                    true,
+                                                                    false)),
+                                                                    (String
+                                                                    ((Ascii
+                                                                    (true,
+                                                                    false,
+                                                                    true,
+                                                                    false,
+                                                                    false,
+                                                                    true,
+                                                                    true,
+                                                                    false)),
+                                                                    (String
+                                                                    ((Ascii
+                                                                    (false,
+                                                                    true,
+                                                                    true,
+                                                                    false,
+                                                                    false,
+                                                                    true,
+                                                                    true,
+                                                                    false)),
+                                                                    (String
+                                                                    ((Ascii
+                                                                    (true,
+                                                                    false,
+                                                                    false,
+                                                                    true,
+                                                                    false,
+                                                                    true,
+                                                                    true,
+                                                                    false)),
+                                                                    (String
+                                                                    ((Ascii
+                                                                    (false,
+                                                                    false,
+                                                                    false,
+                                                                    true,
+                                                                    true,
+                                                                    true,
+                                                                    true,
+                                                                    false)),
+                                                                    EmptyString))))))))))))))))
+                                                                    then 
+                                                                    Some
+                                                                    (t_res_s
+                                                                    (spec_ipv6prefix
+                                                                    (b1 bs))
+                                                                    t_pair)
+                                                                    else 
+                                                                    if 
+                                                                    name_is
+                                                                    name
+                                                                    (String
+                                                                    ((Ascii
+                                                                    (true,
+                                                                    false,
+                                                                    true,
+                                                                    true,
+                                                                    false,
+                                                                    true,
+                                                                    true,
+                                                                    false)),
+                                                                    (String
+                                                                    ((Ascii
+                                                                    (false,
+                                                                    true,
+                                                                    true,
+                                                                    true,
+                                                                    false,
+                                                                    true,
+                                                                    false,
+                                                                    false)),
+                                                                    (String
+                                                                    ((Ascii
+                                                                    (false,
+                                                                    true,
+                                                                    true,
+                                                                    true,
+                                                                    false,
+                                                                    true,
+                                                                    true,
+                                                                    false)),
+                                                                    (String
+                                                                    ((Ascii
+                                                                    (true,
+                                                                    false,
+                                                                    true,
+                                                                    false,
+                                                                    false,
+                                                                    true,
+                                                                    true,
+                                                                    false)),
+                                                                    (String
+                                                                    ((Ascii
+                                                                    (true,
+                                                                    true,
+                                                                    true,
+                                                                    false,
+                                                                    true,
+                                                                    true,
+                                                                    true,
+                                                                    false)),
+                                                                    (String
+                                                                    ((Ascii
+                                                                    (true,
+                                                                    true,
+                                                                    true,
+                                                                    true,
+                                                                    true,
+                                                                    false,
+                                                                    true,
+                                                                    false)),
+                                                                    (String
+                                                                    ((Ascii
+                                                                    (false,
+                                                                    false,
+                                                                    false,
+                                                                    false,
+                                                                    true,
+                                                                    true,
+                                                                    true,
+                                                                    false)),
+                                                                    (String
+                                                                    ((Ascii
+                                                                    (false,
+                                                                    true,
+                                                                    false,
+                                                                    false,
+                                                                    true,
+                                                                    true,
+                                                                    true,
+                                                                    false)),
+                                                                    (String
+                                                                    ((Ascii
+                                                                    (true,
+                                                                    false,
+                                                                    true,
+                                                                    false,
+                                                                    false,
+                                                                    true,
+                                                                    true,
+                                                                    false)),
+                                                                    (String
+                                                                    ((Ascii
+                                                                    (false,
+                                                                    true,
+                                                                    true,
+                                                                    false,
+                                                                    false,
+                                                                    true,
+                                                                    true,
+                                                                    false)),
+                                                                    (String
+                                                                    ((Ascii
+                                                                    (true,
+                                                                    false,
+                                                                    false,
+                                                                    true,
+                                                                    false,
+                                                                    true,
+                                                                    true,
+                                                                    false)),
+                                                                    (String
+                                                                    ((Ascii
+                                                                    (false,
+                                                                    false,
+                                                                    false,
+                                                                    true,
+                                                                    true,
+                                                                    true,
+                                                                    true,
+                                                                    false)),
+                                                                    EmptyString))))))))))))))))))))))))
+                                                                    then 
+                                                                    Some
+                                                                    (t_res
+                                                                    (new_ipv6prefix
+                                                                    (b1 bs)
+                                                                    (b2 bs))
+                                                                    t_bytes)
+                                                                    else 
+                                                                    if 
+                                                                    name_is
+                                                                    name
+                                                                    (String
+                                                                    ((Ascii
+                                                                    (true,
+                                                                    true,
+                                                                    false,
+                                                                    false,
+                                                                    true,
+                                                                    true,
+                                                                    true,
+                                                                    false)),
+                                                                    (String
+                                                                    ((Ascii
+                                                                    (false,
+                                                                    true,
+                                                                    true,
+                                                                    true,
+                                                                    false,
+                                                                    true,
+                                                                    false,
+                                                                    false)),
+                                                                    (String
+                                                                    ((Ascii
+                                                                    (false,
+                                                                    true,
+                                                                    true,
+                                                                    true,
+                                                                    false,
+                                                                    true,
+                                                                    true,
+                                                                    false)),
+                                                                    (String
+                                                                    ((Ascii
+                                                                    (true,
+                                                                    false,
+                                                                    true,
+                                                                    false,
+                                                                    false,
+                                                                    true,
+                                                                    true,
+                                                                    false)),
+                                                                    (String
+                                                                    ((Ascii
+                                                                    (true,
+                                                                    true,
+                                                                    true,
+                                                                    false,
+                                                                    true,
+                                                                    true,
+                                                                    true,
+                                                                    false)),
+                                                                    (String
+                                                                    ((Ascii
+                                                                    (true,
+                                                                    true,
+                                                                    true,
+                                                                    true,
+                                                                    true,
+                                                                    false,
+                                                                    true,
+                                                                    false)),
+                                                                    (String
+                                                                    ((Ascii
+                                                                    (false,
+                                                                    false,
+                                                                    false,
+                                                                    false,
+                                                                    true,
+                                                                    true,
+                                                                    true,
+                                                                    false)),
+                                                                    (String
+                                                                    ((Ascii
+                                                                    (false,
+                                                                    true,
+                                                                    false,
+                                                                    false,
+                                                                    true,
+                                                                    true,
+                                                                    true,
+                                                                    false)),
+                                                                    (String
+                                                                    ((Ascii
+                                                                    (true,
+                                                                    false,
+                                                                    true,
+                                                                    false,
+                                                                    false,
+                                                                    true,
+                                                                    true,
+                                                                    false)),
+                                                                    (String
+                                                                    ((Ascii
+                                                                    (false,
+                                                                    true,
+                                                                    true,
+                                                                    false,
+                                                                    false,
+                                                                    true,
+                                                                    true,
+                                                                    false)),
+                                                                    (String
+                                                                    ((Ascii
+                                                                    (true,
+                                                                    false,
+                                                                    false,
+                                                                    true,
+                                                                    false,
+                                                                    true,
+                                                                    true,
+                                                                    false)),
+                                                                    (String
+                                                                    ((Ascii
+                                                                    (false,
+                                                                    false,
+                                                                    false,
+                                                                    true,
+                                                                    true,
+                                                                    true,
+                                                                    true,
+                                                                    false)),
+                                                                    EmptyString))))))))))))))))))))))))
+                                                                    then 
+                                                                    Some
+                                                                    (t_res_s
+                                                                    (spec_new_ipv6prefix
+                                                                    (b1 bs)
+                                                                    (b2 bs))
+                                                                    t_bytes)
+                                                                    else None
+
 (** val dispatch : bytes -> bytes list -> z list -> tok list **)
 
 let dispatch name bs zs =
@@ -4682,4 +9341,7 @@ let dispatch name bs zs =
                     (match dispatch_pw name bs zs with
                      | Some t -> t
                      | None ->
-                       (TI (Zneg (XI (XO (XO (XO (XO (XI XH)))))))) :: []))
+                       (match dispatch_codec name bs zs with
+                        | Some t -> t
+                        | None ->
+                          (TI (Zneg (XI (XO (XO (XO (XO (XI XH)))))))) :: [])))
